@@ -1,7 +1,8 @@
 (* The fragment {sleep, sleep_until, log, reset / drop of a pinned sleep, timeout(d, sleep x),
-   interval new / tick / drop, keep-alive select (step 13)} of the task scripts of
-   coq/Timer/Model.v: what the property demands of a task (exp_run), and what one poll of
-   such a task does (frag_run, poll_ok). *)
+   select over two sleeps, interval new / tick / drop, keep-alive select (step 13)} of the task
+   scripts of coq/Timer/Model.v, and its extension by channels {hand-over of an elapsed boxed
+   Sleep (a token), timeout(d, receive)}: what the property demands of a task (exp_run), and
+   what one poll of such a task does (frag_run, poll_ok). *)
 From Coq Require Import List Arith NArith Bool Lia ZifyBool.
 From DesVerif Require Import Common.Codec CQueue.Spec Timer.Driver Timer.QueueLemmas Timer.Inv Timer.Futures Timer.FutureLaws Timer.TempOps Timer.Model.
 Import ListNotations.
@@ -21,6 +22,16 @@ Definition frag_step (s : step) : Prop :=
   | _ => False
   end.
 
+(* ... with channels.  A task is either a receiver ([rcv = true]: it may await timeout(d, receive
+   from ch)) or not (it may send: the boxed Sleep it hands over is sleep(0), polled once -- it has
+   elapsed, is never registered, and serves as a mere token) *)
+Definition frag_step2 (rcv : bool) (s : step) : Prop :=
+  match s with
+  | STimeoutRecv d _ => rcv = true /\ d < FARK
+  | SHandOver _ d => rcv = false /\ d = 0
+  | _ => frag_step s
+  end.
+
 (* select! over sleep(a) and sleep(b): the branch that is reported; an unbiased select whose branches
    are due at the same instant may take either, which the scripts log as 2 *)
 Definition sel_code (biased : bool) (a b : N) : N :=
@@ -32,34 +43,99 @@ Definition ivs := option (N * N * behaviour).
 Definition iv_abs (iv : option interval) : ivs :=
   match iv with Some i => Some (deadline (iv_delay i), iv_period i, iv_beh i) | None => None end.
 
-(* the log the property demands of a task that is at instant [now] with [steps] to go:
-   every await returns at exactly its deadline; a reset Sleep at its NEW deadline; polling and
+(* ... and of the channels of the task's module: for every channel the instants at which the
+   messages the task has not yet received are (or will be) sent, in order *)
+Definition arrs := N -> list N.
+Definition noarr : arrs := fun _ => [].
+Definition arr_pop (arr : arrs) (ch : N) : arrs := fun c => if c =? ch then tl (arr c) else arr c.
+
+(* timeout(d, receive) begun at [now] when the next message arrives at the head of [l]: the
+   message is received iff it arrives before the deadline now + d *)
+Definition recv_hit (now d : N) (l : list N) : option N :=
+  match l with a :: _ => if a <? now + d then Some a else None | [] => None end.
+
+(* the log the property demands of a task that is at instant [now] with [steps] to go, step by
+   step: what the step logs, and the instant / interval / arrivals after it.
+   Every await returns at exactly its deadline; a reset Sleep at its NEW deadline; polling and
    dropping a Sleep takes no time.  tick() of an interval whose next tick is due at [nx]
    returns at max(now, nx) -- at once if the tick was missed -- with the value nx, and the
    following tick is due at tick_next (Burst: nx + period always; Delay: now + period and
    Skip: the next multiple of the period after now, both only when the tick was taken more
-   than 5 ms late); tick() without an interval is logged as [now; 0] *)
-Fixpoint exp_run (now : N) (iv : ivs) (steps : list step) : list N :=
+   than 5 ms late); tick() without an interval is logged as [now; 0].
+   select! { biased; the kept timer (armed for now + d2) => 0, sleep(x) => 1 }: the kept timer
+   wins a tie; on 1 it is re-armed for d3 more and awaited (rearm) or dropped.
+   timeout(d, receive): Ok (1) at max(now, arrival) if the message arrives before now + d,
+   Elapsed (0) at now + d otherwise, the message staying for the next receive. *)
+Definition step_log (now : N) (iv : ivs) (arr : arrs) (st : step) : list N :=
+  match st with
+  | SSleep d => [now + d]
+  | SSleepUntil t => [N.max now t]
+  | SReset _ _ d2 => [now + d2]
+  | STimeout d (ISleep x) => [now + N.min x d; b2n (x <=? d)]
+  | SSelect biased a b => [now + N.min a b; sel_code biased a b]
+  | SIvNew _ _ => []
+  | SIvTick => match iv with Some (nx, _, _) => [N.max now nx; nx] | None => [now; 0] end
+  | SIvDrop => []
+  | SKeep rearm _ d2 x d3 => if d2 <=? x then [now + d2; 0] else [now + x; 1; now + x + (if rearm then d3 else 0)]
+  | STimeoutRecv d ch => match recv_hit now d (arr ch) with Some a => [N.max now a; 1] | None => [now + d; 0] end
+  | _ => [now]
+  end.
+
+Definition step_time (now : N) (iv : ivs) (arr : arrs) (st : step) : N :=
+  match st with
+  | SSleep d => now + d
+  | SSleepUntil t => N.max now t
+  | SReset _ _ d2 => now + d2
+  | STimeout d (ISleep x) => now + N.min x d
+  | SSelect _ a b => now + N.min a b
+  | SIvTick => match iv with Some (nx, _, _) => N.max now nx | None => now end
+  | SKeep rearm _ d2 x d3 => if d2 <=? x then now + d2 else now + x + (if rearm then d3 else 0)
+  | STimeoutRecv d ch => match recv_hit now d (arr ch) with Some a => N.max now a | None => now + d end
+  | _ => now
+  end.
+
+Definition step_iv (now : N) (iv : ivs) (st : step) : ivs :=
+  match st with
+  | SIvNew p b => Some (now, p, b)
+  | SIvTick => match iv with Some (nx, p, b) => Some (tick_next b nx (N.max now nx) p, p, b) | None => None end
+  | SIvDrop => None
+  | _ => iv
+  end.
+
+Definition step_arr (now : N) (arr : arrs) (st : step) : arrs :=
+  match st with
+  | STimeoutRecv d ch => match recv_hit now d (arr ch) with Some _ => arr_pop arr ch | None => arr end
+  | _ => arr
+  end.
+
+Fixpoint exp_run (now : N) (iv : ivs) (arr : arrs) (steps : list step) : list N :=
   match steps with
   | [] => []
-  | SSleep d :: r => (now + d) :: exp_run (now + d) iv r
-  | SSleepUntil t :: r => N.max now t :: exp_run (N.max now t) iv r
-  | SReset _ _ d2 :: r => (now + d2) :: exp_run (now + d2) iv r
-  | STimeout d (ISleep x) :: r => (now + N.min x d) :: b2n (x <=? d) :: exp_run (now + N.min x d) iv r
-  | SSelect biased a b :: r => (now + N.min a b) :: sel_code biased a b :: exp_run (now + N.min a b) iv r
-  | SIvNew p b :: r => exp_run now (Some (now, p, b)) r
-  | SIvTick :: r =>
-    match iv with
-    | Some (nx, p, b) => N.max now nx :: nx :: exp_run (N.max now nx) (Some (tick_next b nx (N.max now nx) p, p, b)) r
-    | None => now :: 0 :: exp_run now None r
-    end
-  | SIvDrop :: r => exp_run now None r
-  | SKeep rearm _ d2 x d3 :: r =>
-    (* select! { biased; the kept timer (armed for now + d2) => 0, sleep(x) => 1 }: the kept timer
-       wins a tie; on 1 it is re-armed for d3 more and awaited (rearm) or dropped *)
-    if d2 <=? x then (now + d2) :: 0 :: exp_run (now + d2) iv r
-    else let e := now + x + (if rearm then d3 else 0) in (now + x) :: 1 :: e :: exp_run e iv r
-  | _ :: r => now :: exp_run now iv r
+  | st :: r => step_log now iv arr st ++ exp_run (step_time now iv arr st) (step_iv now iv st) (step_arr now arr st) r
+  end.
+
+(* the closed form above does not say what happens when a message arrives at the very instant
+   the timeout elapses: then the result is decided by the order in which the executor polls
+   the sender and the receiver within that instant.  [recv_ok]: no receive of the task is
+   such a tie (and its deadline is finite) *)
+Definition step_ok (now : N) (arr : arrs) (st : step) : Prop :=
+  match st with
+  | STimeoutRecv d ch => now + d < TMAX /\ match arr ch with a :: _ => a <> now + d | [] => True end
+  | _ => True
+  end.
+
+Fixpoint recv_ok (now : N) (iv : ivs) (arr : arrs) (steps : list step) : Prop :=
+  match steps with
+  | [] => True
+  | st :: r => step_ok now arr st /\ recv_ok (step_time now iv arr st) (step_iv now iv st) (step_arr now arr st) r
+  end.
+
+(* the messages a task that does not receive will send: (channel, instant) *)
+Fixpoint exp_sends (now : N) (iv : ivs) (steps : list step) : list (N * N) :=
+  match steps with
+  | [] => []
+  | st :: r => (match st with SHandOver ch _ => [(ch, now)] | _ => [] end) ++
+               exp_sends (step_time now iv noarr st) (step_iv now iv st) r
   end.
 
 (* outside of tick().await the Sleep of the interval is not registered *)
@@ -67,13 +143,15 @@ Definition iv_idle (iv : option interval) : Prop :=
   match iv with Some i => handle (iv_delay i) = None | None => True end.
 
 (* the await states of the fragment: the Sleeps they hold (all registered while the task is
-   blocked), the instant they complete, what the task logs then, and the interval afterwards *)
+   blocked), the instant of their first timer wake-up, the instant they complete, what the
+   task logs then, and the interval / arrivals afterwards *)
 Definition aw_held (a : aw) (iv : option interval) : list sleep := held_sleeps (Some a) iv.
 
 Definition aw_kind (a : aw) (iv : option interval) : Prop :=
   match a with
   | AwSleep _ => iv_idle iv
   | AwTimeout (VSleep _) _ => iv_idle iv
+  | AwTimeout (VRecv _) _ => iv_idle iv
   | AwSelect _ tie sa sb => iv_idle iv /\ tie = (deadline sa =? deadline sb)
   | AwTick => iv <> None
   | AwKeep _ d3 _ _ => iv_idle iv /\ d3 < FARK
@@ -85,6 +163,7 @@ Definition aw_wake (a : aw) (iv : option interval) : N :=
   match a with
   | AwSleep s => deadline s
   | AwTimeout (VSleep s) dl => N.min (deadline s) (deadline dl)
+  | AwTimeout (VRecv _) dl => deadline dl
   | AwSelect _ _ sa sb => N.min (deadline sa) (deadline sb)
   | AwTick => match iv with Some i => deadline (iv_delay i) | None => 0 end
   | AwKeep _ _ s sx => N.min (deadline s) (deadline sx)
@@ -92,23 +171,43 @@ Definition aw_wake (a : aw) (iv : option interval) : N :=
   | _ => 0
   end.
 
-(* the instant the await completes: the first wake-up, except for the re-armed kept timer *)
-Definition aw_end (a : aw) (iv : option interval) : N :=
+(* a blocked receive: the next message, if it arrives before the deadline *)
+Definition aw_hit (D : N) (l : list N) : option N :=
+  match l with a :: _ => if a <? D then Some a else None | [] => None end.
+
+(* the instant the await completes: the first wake-up, except for the re-armed kept timer and
+   for a receive that gets its message *)
+Definition aw_end (a : aw) (iv : option interval) (arr : arrs) : N :=
   match a with
   | AwKeep rearm d3 s sx => if deadline s <=? deadline sx then deadline s else deadline sx + (if rearm then d3 else 0)
+  | AwTimeout (VRecv ch) dl => match aw_hit (deadline dl) (arr ch) with Some a0 => a0 | None => deadline dl end
   | _ => aw_wake a iv
   end.
 
-Definition aw_rec (a : aw) (iv : option interval) : list N :=
+Definition aw_rec (a : aw) (iv : option interval) (arr : arrs) : list N :=
   match a with
   | AwSleep s => [deadline s]
   | AwTimeout (VSleep s) dl => [N.min (deadline s) (deadline dl); b2n (deadline s <=? deadline dl)]
+  | AwTimeout (VRecv ch) dl => match aw_hit (deadline dl) (arr ch) with Some a0 => [a0; 1] | None => [deadline dl; 0] end
   | AwSelect biased _ sa sb => [N.min (deadline sa) (deadline sb); sel_code biased (deadline sa) (deadline sb)]
   | AwTick => match iv with Some i => [deadline (iv_delay i); deadline (iv_delay i)] | None => [] end
   | AwKeep rearm d3 s sx =>
     if deadline s <=? deadline sx then [deadline s; 0] else [deadline sx; 1; deadline sx + (if rearm then d3 else 0)]
   | AwThen pre s => pre ++ [deadline s]
   | _ => []
+  end.
+
+Definition aw_arr (a : aw) (arr : arrs) : arrs :=
+  match a with
+  | AwTimeout (VRecv ch) dl => match aw_hit (deadline dl) (arr ch) with Some _ => arr_pop arr ch | None => arr end
+  | _ => arr
+  end.
+
+(* the blocked receive is not a tie, and its deadline is finite *)
+Definition aw_ok (a : aw) (arr : arrs) : Prop :=
+  match a with
+  | AwTimeout (VRecv ch) dl => deadline dl < TMAX /\ match arr ch with a0 :: _ => a0 <> deadline dl | [] => True end
+  | _ => True
   end.
 
 Definition iv_next (i : interval) (d : N) : interval :=
@@ -155,56 +254,72 @@ Definition prep_drv (now nid : N) (st : step) (dr : driver) : driver :=
 Definition iv_reg (i : interval) : interval :=
   {| iv_delay := reg (sid (iv_delay i)) (deadline (iv_delay i)); iv_period := iv_period i; iv_beh := iv_beh i |}.
 
-(* one poll of a task that is not awaiting anything: (log entries, the await state it blocks in
-   with its interval and the steps still to go, next Sleep id, the driver afterwards) *)
-Fixpoint frag_run (now nid : N) (iv : option interval) (steps : list step) (dr : driver)
-  : list N * option (aw * option interval * list step) * N * driver :=
+(* the boxed Sleep that is handed over: sleep(d) created at [now] with id [nid] and polled once;
+   in the fragment d = 0: it has elapsed *)
+Definition token (now d nid : N) : sleep := {| deadline := now + d; sid := nid; handle := None |}.
+
+(* one poll of task k of module m when it is not awaiting anything: (log entries, the await
+   state it blocks in with its interval and the steps still to go, next Sleep id, the driver
+   and the channels afterwards) *)
+Fixpoint frag_run (now nid m : N) (k : nat) (iv : option interval) (steps : list step) (dr : driver) (mail : mailbox)
+  : list N * option (aw * option interval * list step) * N * driver * mailbox :=
   match steps with
-  | [] => ([], None, nid, dr)
+  | [] => ([], None, nid, dr, mail)
   | st :: r =>
     match st with
-    | SLog => let '(o, b, n, d') := frag_run now nid iv r dr in (now :: o, b, n, d')
-    | SDropSleep _ => let '(o, b, n, d') := frag_run now (nid + 1) iv r (prep_drv now nid st dr) in (now :: o, b, n, d')
+    | SLog => let '(o, b, n, d', ml) := frag_run now nid m k iv r dr mail in (now :: o, b, n, d', ml)
+    | SDropSleep _ => let '(o, b, n, d', ml) := frag_run now (nid + 1) m k iv r (prep_drv now nid st dr) mail in (now :: o, b, n, d', ml)
     | SSleep _ | SSleepUntil _ | SReset _ _ _ =>
       let dr1 := prep_drv now nid st dr in
       if now <? dl_of now st
-      then ([], Some (AwSleep (reg nid (dl_of now st)), iv, st :: r), nid + 1, register nid (dl_of now st) dr1)
-      else let '(o, b, n, d') := frag_run now (nid + 1) iv r dr1 in (now :: o, b, n, d')
+      then ([], Some (AwSleep (reg nid (dl_of now st)), iv, st :: r), nid + 1, register nid (dl_of now st) dr1, mail)
+      else let '(o, b, n, d', ml) := frag_run now (nid + 1) m k iv r dr1 mail in (now :: o, b, n, d', ml)
     | STimeout d (ISleep x) =>
       if (now <? now + x) && (now <? dl now d)
       then ([], Some (AwTimeout (VSleep (reg nid (now + x))) (reg (nid + 1) (dl now d)), iv, st :: r), nid + 2,
-            register (nid + 1) (dl now d) (register nid (now + x) dr))
-      else let '(o, b, n, d') := frag_run now (nid + 2) iv r (prep_drv now nid st dr) in
-           (now :: b2n (negb (now <? now + x)) :: o, b, n, d')
+            register (nid + 1) (dl now d) (register nid (now + x) dr), mail)
+      else let '(o, b, n, d', ml) := frag_run now (nid + 2) m k iv r (prep_drv now nid st dr) mail in
+           (now :: b2n (negb (now <? now + x)) :: o, b, n, d', ml)
     | SSelect biased a b =>
       if (now <? dl now a) && (now <? dl now b)
       then ([], Some (AwSelect biased (a =? b) (reg nid (dl now a)) (reg (nid + 1) (dl now b)), iv, st :: r), nid + 2,
-            register (nid + 1) (dl now b) (register nid (dl now a) dr))
-      else let '(o, b', n, d') := frag_run now (nid + 2) iv r (prep_drv now nid st dr) in
-           (now :: (if now <? dl now a then 1 else if biased || negb (a =? b) then 0 else 2) :: o, b', n, d')
+            register (nid + 1) (dl now b) (register nid (dl now a) dr), mail)
+      else let '(o, b', n, d', ml) := frag_run now (nid + 2) m k iv r (prep_drv now nid st dr) mail in
+           (now :: (if now <? dl now a then 1 else if biased || negb (a =? b) then 0 else 2) :: o, b', n, d', ml)
     | SKeep rearm d0 d2 x d3 =>
       let drp := prep_drv now nid st dr in
       if now <? dl now d2 then
         if now <? now + x then
           ([], Some (AwKeep rearm d3 (reg nid (dl now d2)) (reg (nid + 1) (now + x)), iv, st :: r), nid + 2,
-           register (nid + 1) (now + x) (register nid (dl now d2) drp))
+           register (nid + 1) (now + x) (register nid (dl now d2) drp), mail)
         else if rearm && (now <? dl now d3) then
-          ([], Some (AwThen [now; 1] (reg nid (dl now d3)), iv, st :: r), nid + 2, register nid (dl now d3) drp)
-        else let '(o, b, n, d') := frag_run now (nid + 2) iv r drp in (now :: 1 :: now :: o, b, n, d')
-      else let '(o, b, n, d') := frag_run now (nid + 2) iv r drp in (now :: 0 :: o, b, n, d')
-    | SIvNew p bh => frag_run now (nid + 1) (Some (interval_new now p bh nid)) r dr
-    | SIvDrop => frag_run now nid None r dr
+          ([], Some (AwThen [now; 1] (reg nid (dl now d3)), iv, st :: r), nid + 2, register nid (dl now d3) drp, mail)
+        else let '(o, b, n, d', ml) := frag_run now (nid + 2) m k iv r drp mail in (now :: 1 :: now :: o, b, n, d', ml)
+      else let '(o, b, n, d', ml) := frag_run now (nid + 2) m k iv r drp mail in (now :: 0 :: o, b, n, d', ml)
+    | SIvNew p bh => frag_run now (nid + 1) m k (Some (interval_new now p bh nid)) r dr mail
+    | SIvDrop => frag_run now nid m k None r dr mail
     | SIvTick =>
       match iv with
-      | None => let '(o, b, n, d') := frag_run now nid None r dr in (now :: 0 :: o, b, n, d')
+      | None => let '(o, b, n, d', ml) := frag_run now nid m k None r dr mail in (now :: 0 :: o, b, n, d', ml)
       | Some i =>
         let nx := deadline (iv_delay i) in
         if now <? nx
-        then ([], Some (AwTick, Some (iv_reg i), st :: r), nid, register (sid (iv_delay i)) nx dr)
-        else let '(o, b, n, d') := frag_run now nid (Some (iv_next i (tick_next (iv_beh i) nx now (iv_period i)))) r dr in
-             (now :: nx :: o, b, n, d')
+        then ([], Some (AwTick, Some (iv_reg i), st :: r), nid, register (sid (iv_delay i)) nx dr, mail)
+        else let '(o, b, n, d', ml) := frag_run now nid m k (Some (iv_next i (tick_next (iv_beh i) nx now (iv_period i)))) r dr mail in
+             (now :: nx :: o, b, n, d', ml)
       end
-    | _ => ([], None, nid, dr)
+    | SHandOver ch d =>
+      let '(o, b, n, d', ml) := frag_run now (nid + 1) m k iv r dr (mail ++ [(m, ch, k, token now d nid)]) in (now :: o, b, n, d', ml)
+    | STimeoutRecv d ch =>
+      match mail_take m ch mail with
+      | Some (s, mail') =>
+        let '(o, b, n, d', ml) := frag_run now (nid + 1) m k iv r (sleep_drop s dr) mail' in (now :: 1 :: o, b, n, d', ml)
+      | None =>
+        if now <? dl now d
+        then ([], Some (AwTimeout (VRecv ch) (reg nid (dl now d)), iv, st :: r), nid + 1, register nid (dl now d) dr, mail)
+        else let '(o, b, n, d', ml) := frag_run now (nid + 1) m k iv r dr mail in (now :: 0 :: o, b, n, d', ml)
+      end
+    | _ => ([], None, nid, dr, mail)
     end
   end.
 
@@ -218,40 +333,47 @@ Proof. intros H. unfold dl. replace (FARK <=? d) with false by lia. reflexivity.
 Lemma iv_drop_idle iv dr : iv_idle iv -> iv_drop iv dr = dr.
 Proof. destruct iv as [i|]; [|reflexivity]. cbn [iv_idle iv_drop]. unfold sleep_drop. intros ->. reflexivity. Qed.
 
-Lemma run_steps_frag now m k steps : Forall frag_step steps -> forall iv dr nid lg mail, iv_idle iv ->
+Lemma frag_step2_old rcv st : frag_step st -> frag_step2 rcv st.
+Proof. destruct st; cbn [frag_step frag_step2]; try (intros H; exact H); contradiction. Qed.
+
+Ltac dfr := match goal with |- context [frag_run ?a ?b ?c ?d ?e ?f ?g ?h] =>
+  let o := fresh "o" in let b' := fresh "b" in let n := fresh "n" in let d' := fresh "d'" in let ml := fresh "ml" in
+  destruct (frag_run a b c d e f g h) as [[[[o b'] n] d'] ml] end.
+
+Lemma run_steps_frag now m k rcv steps : Forall (frag_step2 rcv) steps -> forall iv dr nid lg mail, iv_idle iv ->
   run_steps now m k steps None iv dr nid lg mail =
-  let '(o, b, n, d') := frag_run now nid iv steps dr in
-  (fr_steps b, fr_cur b, fr_iv b, d', n, lg ++ o, false, mail).
+  let '(o, b, n, d', ml) := frag_run now nid m k iv steps dr mail in
+  (fr_steps b, fr_cur b, fr_iv b, d', n, lg ++ o, false, ml).
 Proof.
   induction 1 as [|st r Hst Hr IH]; intros iv dr nid lg mail Hi.
   - cbn [run_steps frag_run fr_steps fr_cur fr_iv]. rewrite (iv_drop_idle iv dr Hi), app_nil_r. reflexivity.
-  - destruct st; try contradiction; cbn [run_steps start_step start_step0 poll_aw poll_aw0 fst snd frag_run dl_of prep_drv].
+  - destruct st; try contradiction; cbn [frag_step2 frag_step] in Hst; cbn [run_steps start_step start_step0 poll_aw poll_aw0 fst snd frag_run dl_of prep_drv].
     + unfold sleep_poll, sleep_new. cbn [deadline handle sid].
       destruct (now <? now + d); cbn [fr_steps fr_cur fr_iv]; [rewrite app_nil_r; reflexivity|].
-      rewrite (IH iv _ _ _ _ Hi). destruct (frag_run now (nid + 1) iv r dr) as [[[o b] n] d']. rewrite <- app_assoc. reflexivity.
+      rewrite (IH iv _ _ _ _ Hi). dfr. rewrite <- app_assoc. reflexivity.
     + unfold sleep_poll, sleep_new. cbn [deadline handle sid].
       destruct (now <? t); cbn [fr_steps fr_cur fr_iv]; [rewrite app_nil_r; reflexivity|].
-      rewrite (IH iv _ _ _ _ Hi). destruct (frag_run now (nid + 1) iv r dr) as [[[o b] n] d']. rewrite <- app_assoc. reflexivity.
+      rewrite (IH iv _ _ _ _ Hi). dfr. rewrite <- app_assoc. reflexivity.
     + (* timeout around a sleep *)
       destruct v as [x|]; [|contradiction].
       cbn [run_steps start_step start_step0 poll_aw poll_aw0 fst snd frag_run prep_drv]. unfold timeout_poll, vpoll_m. cbn [fst snd vpoll]. unfold sleep_poll, sleep_new. cbn [deadline handle sid].
       destruct (now <? now + x) eqn:Ex; cbn [andb negb].
       * destruct (now <? dl now d) eqn:Ed; cbn [fst snd self_wakes fr_steps fr_cur fr_iv reg].
         -- rewrite app_nil_r. reflexivity.
-        -- unfold sleep_drop, vdrop. cbn [handle sid].
-           rewrite (IH iv _ _ _ _ Hi). destruct (frag_run now (nid + 2) iv r _) as [[[o b] n] d']. rewrite <- app_assoc. reflexivity.
+        -- cbn [vdrop]. unfold sleep_drop. cbn [handle sid andb negb].
+           rewrite (IH iv _ _ _ _ Hi). dfr. rewrite <- app_assoc. reflexivity.
       * cbn [fst snd vdrop]. unfold sleep_drop. cbn [handle].
-        rewrite (IH iv _ _ _ _ Hi). destruct (frag_run now (nid + 2) iv r dr) as [[[o b] n] d']. rewrite <- app_assoc. reflexivity.
+        rewrite (IH iv _ _ _ _ Hi). dfr. rewrite <- app_assoc. reflexivity.
     + (* select over two sleeps *)
       destruct Hst as [Ha Hb]. rewrite (dl_fin now a Ha), (dl_fin now b Hb).
       unfold sleep_poll, sleep_new. cbn [deadline handle sid].
       destruct (now <? now + a) eqn:Ea; cbn [andb negb].
       * destruct (now <? now + b) eqn:Eb; cbn [fst snd fr_steps fr_cur fr_iv reg].
         -- rewrite app_nil_r. reflexivity.
-        -- unfold sleep_drop. cbn [handle sid]. replace (a =? b) with false by lia. rewrite orb_true_r.
-           rewrite (IH iv _ _ _ _ Hi). destruct (frag_run now (nid + 2) iv r _) as [[[o b'] n] d']. rewrite <- app_assoc. reflexivity.
+        -- unfold sleep_drop. cbn [handle sid andb negb]. replace (a =? b) with false by lia. rewrite orb_true_r.
+           rewrite (IH iv _ _ _ _ Hi). dfr. rewrite <- app_assoc. reflexivity.
       * cbn [fst snd]. unfold sleep_drop. cbn [handle].
-        rewrite (IH iv _ _ _ _ Hi). destruct (frag_run now (nid + 2) iv r dr) as [[[o b'] n] d']. rewrite <- app_assoc. reflexivity.
+        rewrite (IH iv _ _ _ _ Hi). dfr. rewrite <- app_assoc. reflexivity.
     + (* a new interval: the old one, idle, is dropped *)
       rewrite (iv_drop_idle iv dr Hi). rewrite IH; [|reflexivity]. reflexivity.
     + (* tick *)
@@ -261,8 +383,8 @@ Proof.
         -- rewrite app_nil_r. reflexivity.
         -- unfold sleep_reset. cbn [deadline handle sid fst snd].
            rewrite IH; [|reflexivity]. unfold iv_next. cbn [iv_delay iv_period iv_beh sid].
-           destruct (frag_run now nid _ r dr) as [[[o b] n] d']. rewrite <- app_assoc. reflexivity.
-      * rewrite IH; [|exact I]. destruct (frag_run now nid None r dr) as [[[o b] n] d']. rewrite <- app_assoc. reflexivity.
+           dfr. rewrite <- app_assoc. reflexivity.
+      * rewrite IH; [|exact I]. dfr. rewrite <- app_assoc. reflexivity.
     + (* the interval, idle, is dropped *)
       rewrite (iv_drop_idle iv dr Hi). rewrite IH; [|exact I]. reflexivity.
     + (* reset *)
@@ -275,11 +397,25 @@ Proof.
         destruct (sleep_poll now (sleep_new (dl now d1) nid) dr) as [[r0 s1'] dr1']. injection E1 as <- _. exact Hs. }
       unfold sleep_reset. cbn [snd fst poll_aw poll_aw0]. unfold sleep_poll. cbn [deadline handle sid]. rewrite Hsid.
       destruct (now <? dl now d2); cbn [fr_steps fr_cur fr_iv fst snd]; [rewrite app_nil_r; reflexivity|].
-      rewrite (IH iv _ _ _ _ Hi). destruct (frag_run now (nid + 1) iv r _) as [[[o b] n] d']. rewrite <- app_assoc. reflexivity.
+      rewrite (IH iv _ _ _ _ Hi). dfr. rewrite <- app_assoc. reflexivity.
     + (* drop *)
       destruct (sleep_poll now (sleep_new (dl now d) nid) dr) as [[r0 s1] dr1]. cbn [fst snd].
-      rewrite (IH iv _ _ _ _ Hi). destruct (frag_run now (nid + 1) iv r (sleep_drop s1 dr1)) as [[[o b] n] d']. rewrite <- app_assoc. reflexivity.
-    + rewrite (IH iv _ _ _ _ Hi). destruct (frag_run now nid iv r dr) as [[[o b] n] d']. rewrite <- app_assoc. reflexivity.
+      rewrite (IH iv _ _ _ _ Hi). dfr. rewrite <- app_assoc. reflexivity.
+    + rewrite (IH iv _ _ _ _ Hi). dfr. rewrite <- app_assoc. reflexivity.
+    + (* hand-over of an elapsed Sleep *)
+      destruct Hst as [_ ->]. unfold sleep_poll, sleep_new. cbn [deadline handle sid].
+      replace (now <? now + 0) with false by lia. cbn [fst snd]. fold (token now 0 nid).
+      rewrite (IH iv _ _ _ _ Hi). dfr. rewrite <- app_assoc. reflexivity.
+    + (* timeout around a receive *)
+      unfold timeout_poll, vpoll_m. cbn [fst snd].
+      destruct (mail_take m ch mail) as [[s mail']|] eqn:Em; cbn [fst snd].
+      * unfold sleep_drop at 1. unfold sleep_new. cbn [handle vdrop].
+        rewrite (IH iv _ _ _ _ Hi). dfr. rewrite <- app_assoc. reflexivity.
+      * unfold sleep_poll, sleep_new. cbn [deadline handle sid].
+        destruct (now <? dl now d) eqn:Ed; cbn [fst snd self_wakes fr_steps fr_cur fr_iv reg].
+        -- rewrite app_nil_r. reflexivity.
+        -- unfold sleep_drop. cbn [handle vdrop].
+           rewrite (IH iv _ _ _ _ Hi). dfr. rewrite <- app_assoc. reflexivity.
     + (* keep-alive select *)
       unfold reset_prep, sleep_poll, sleep_new, sleep_reset. cbn [deadline handle sid fst snd].
       destruct (now <? dl now d0); cbn [deadline handle sid fst snd poll_aw poll_aw0]; unfold sleep_poll; cbn [deadline handle sid];
@@ -290,17 +426,11 @@ Proof.
          [unfold sleep_reset, sleep_drop; cbn [deadline handle sid fst snd]; unfold sleep_poll; cbn [deadline handle sid];
           destruct (now <? dl now d3) eqn:E3; cbn [fr_steps fr_cur fr_iv reg fst snd];
           [rewrite app_nil_r; reflexivity|
-           rewrite (IH iv _ _ _ _ Hi);
-           match goal with |- context [frag_run now (nid + 2) iv r ?D] => destruct (frag_run now (nid + 2) iv r D) as [[[o b] n] d'] end;
-           rewrite <- app_assoc; reflexivity]|
+           rewrite (IH iv _ _ _ _ Hi); dfr; rewrite <- app_assoc; reflexivity]|
           unfold sleep_drop; cbn [deadline handle sid fst snd];
-          rewrite (IH iv _ _ _ _ Hi);
-          match goal with |- context [frag_run now (nid + 2) iv r ?D] => destruct (frag_run now (nid + 2) iv r D) as [[[o b] n] d'] end;
-          rewrite <- app_assoc; reflexivity]]|
+          rewrite (IH iv _ _ _ _ Hi); dfr; rewrite <- app_assoc; reflexivity]]|
         unfold sleep_drop; cbn [deadline handle sid fst snd];
-        rewrite (IH iv _ _ _ _ Hi);
-        match goal with |- context [frag_run now (nid + 2) iv r ?D] => destruct (frag_run now (nid + 2) iv r D) as [[[o b] n] d'] end;
-        rewrite <- app_assoc; reflexivity]).
+        rewrite (IH iv _ _ _ _ Hi); dfr; rewrite <- app_assoc; reflexivity]).
 Qed.
 
 (* the task is polled when the future it awaits completes: at its wake instant *)
@@ -308,6 +438,9 @@ Definition aw_done (t : N) (a : aw) (dr : driver) : driver :=
   match a with
   | AwTimeout (VSleep s) dl =>
     if deadline s <=? t then drop_entry (sid dl) (deadline dl) dr else drop_entry (sid s) (deadline s) dr
+  | AwTimeout (VRecv _) dl =>
+    (* woken by a message before the deadline: the delay is dropped; woken at the deadline: it was popped *)
+    if t <? deadline dl then drop_entry (sid dl) (deadline dl) dr else dr
   | AwSelect _ _ sa sb =>
     if deadline sa <=? t then drop_entry (sid sb) (deadline sb) dr else drop_entry (sid sa) (deadline sa) dr
   | AwKeep rearm d3 s sx =>
@@ -327,16 +460,16 @@ Definition aw_reblock (t : N) (a : aw) : option aw :=
   | _ => None
   end.
 
-Lemma run_steps_woken now m k st r a iv dr nid lg mail :
+Lemma run_steps_woken now m k st r a iv arr dr nid lg mail :
   aw_kind a iv -> Forall (fun s => handle s = Some (deadline s)) (aw_held a iv) -> aw_wake a iv = now ->
-  aw_reblock now a = None ->
+  aw_reblock now a = None -> waits_on (Some a) = None ->
   run_steps now m k (st :: r) (Some a) iv dr nid lg mail =
-  run_steps now m k r None (iv_after a iv) (aw_done now a dr) nid (lg ++ aw_rec a iv) mail.
+  run_steps now m k r None (iv_after a iv) (aw_done now a dr) nid (lg ++ aw_rec a iv arr) mail.
 Proof.
-  intros Hk Hh Hw Hrb. destruct a as [s|v dl|biased tie sa sb| | | | |rearm d3 s sx|pre s]; try contradiction.
+  intros Hk Hh Hw Hrb Hnw. destruct a as [s|v dl|biased tie sa sb| | | | |rearm d3 s sx|pre s]; try contradiction.
   - cbn [aw_wake] in Hw. cbn [run_steps poll_aw poll_aw0 fst snd aw_done aw_rec iv_after]. unfold sleep_poll.
     replace (now <? deadline s) with false by lia. rewrite Hw. reflexivity.
-  - destruct v as [s| | |]; try contradiction. cbn [aw_wake] in Hw. cbn [aw_held held_sleeps] in Hh.
+  - destruct v as [s| |ch|]; try contradiction; [|discriminate Hnw]. cbn [aw_wake] in Hw. cbn [aw_held held_sleeps] in Hh.
     inversion Hh as [|? ? Hs Hh']; subst. inversion Hh' as [|? ? Hd _]; subst.
     cbn [run_steps poll_aw fst snd aw_done aw_rec iv_after]. unfold timeout_poll, vpoll_m. cbn [fst snd vpoll]. unfold sleep_poll.
     destruct (deadline s <=? N.min (deadline s) (deadline dl)) eqn:E.
@@ -411,12 +544,33 @@ Proof.
   rewrite E3, E. cbn [fst snd reg deadline sid]. reflexivity.
 Qed.
 
+(* a blocked timeout(d, receive) is polled: with a message in its channel it is Ok -- the delay
+   is dropped, and so is the boxed Sleep that was received; without one, at its deadline, it is Elapsed *)
+Lemma run_steps_woken_recv now m k st r ch dl iv dr nid lg mail :
+  handle dl = Some (deadline dl) ->
+  match mail_take m ch mail with
+  | Some (s, mail') =>
+    run_steps now m k (st :: r) (Some (AwTimeout (VRecv ch) dl)) iv dr nid lg mail =
+    run_steps now m k r None iv (drop_entry (sid dl) (deadline dl) (sleep_drop s dr)) nid (lg ++ [now; 1]) mail'
+  | None =>
+    deadline dl <= now ->
+    run_steps now m k (st :: r) (Some (AwTimeout (VRecv ch) dl)) iv dr nid lg mail =
+    run_steps now m k r None iv dr nid (lg ++ [now; 0]) mail
+  end.
+Proof.
+  intros Hd. cbn [run_steps poll_aw fst snd]. unfold timeout_poll, vpoll_m. cbn [fst snd].
+  destruct (mail_take m ch mail) as [[s mail']|] eqn:Em; cbn [fst snd].
+  - unfold sleep_drop at 1. rewrite Hd. cbn [vdrop]. reflexivity.
+  - intros Hle. unfold sleep_poll. replace (now <? deadline dl) with false by lia. cbn [fst snd].
+    unfold sleep_drop. cbn [handle vdrop]. reflexivity.
+Qed.
+
 (* the preparations of a step leave the entries of the driver as they were *)
-Lemma prep_drv_spec now nid st dr : frag_step st -> Mid now dr -> fresh_in nid (pending dr) ->
+Lemma prep_drv_spec now nid rcv st dr : frag_step2 rcv st -> Mid now dr -> fresh_in nid (pending dr) ->
   acts now dr (prep_drv now nid st dr) /\ forall x, ents_at x (pending (prep_drv now nid st dr)) = ents_at x (pending dr).
 Proof.
   intros Hst Hm Hf. pose proof (mid_sorted _ _ Hm) as Hs.
-  destruct st as [d|t|d v|biased a b| | | |polled d1 d2|d| | | | | |rearm d0 d2 x d3]; try contradiction; cbn [prep_drv]; try (split; [apply acts_refl|reflexivity]).
+  destruct st as [d|t|d v|biased a b| | | |polled d1 d2|d| | | | | |rearm d0 d2 x d3]; try contradiction; cbn [frag_step2 frag_step] in Hst; cbn [prep_drv]; try (split; [apply acts_refl|reflexivity]).
   - destruct v as [x|]; [|contradiction].
     destruct ((now <? now + x) && negb (now <? dl now d)) eqn:E; [|split; [apply acts_refl|reflexivity]].
     split.
@@ -457,61 +611,188 @@ Definition blocked_ok (now nid n : N) (old : N -> Prop) (a : aw) (iv' : option i
   Forall (fun s => now < deadline s /\ handle s = Some (deadline s) /\ idsrc nid n old (sid s)) (aw_held a iv') /\
   (forall id, iv_ids iv' id -> idsrc nid n old id).
 
-(* what one poll emits against the log [E] still demanded, where it leaves the task, and what
-   it does to the driver: contract-respecting operations whose net effect on the entries is the
-   registration of the Sleeps the task blocks on *)
-Definition poll_ok (now nid : N) (old : N -> Prop) (dr : driver) (E : list N)
-                   (res : list N * option (aw * option interval * list step) * N * driver) : Prop :=
-  let '(o, b, n, d') := res in
+(* ---- the channels ---- *)
+(* the boxed Sleeps in channel ch of module m, oldest first *)
+Fixpoint chan (m ch : N) (mail : mailbox) : list sleep :=
+  match mail with
+  | [] => []
+  | (m', ch', _, s) :: r => if (m' =? m) && (ch' =? ch) then s :: chan m ch r else chan m ch r
+  end.
+
+Definition chn (e : N * N * nat * sleep) : N := snd (fst (fst e)).
+
+(* every boxed Sleep in a channel has elapsed before it was sent: it is not registered *)
+Definition inert (mail : mailbox) : Prop := Forall (fun e : N * N * nat * sleep => handle (snd e) = None) mail.
+
+Lemma chan_app m ch l1 l2 : chan m ch (l1 ++ l2) = chan m ch l1 ++ chan m ch l2.
+Proof.
+  induction l1 as [|[[[m' ch'] k'] s] r IH]; cbn [app chan]; [reflexivity|].
+  destruct ((m' =? m) && (ch' =? ch)); [cbn [app]; rewrite IH; reflexivity|exact IH].
+Qed.
+
+Lemma mail_take_some m ch mail s mail' : mail_take m ch mail = Some (s, mail') ->
+  chan m ch mail = s :: chan m ch mail' /\
+  (forall m' c, (m' =? m) && (c =? ch) = false -> chan m' c mail' = chan m' c mail) /\
+  (inert mail -> handle s = None /\ inert mail').
+Proof.
+  revert s mail'. induction mail as [|[[[m0 ch0] k0] s0] r IH]; intros s mail' H; cbn [mail_take] in H; [discriminate|].
+  destruct ((m0 =? m) && (ch0 =? ch)) eqn:E.
+  - injection H as <- <-. cbn [chan]. rewrite E. split; [reflexivity|]. split.
+    + intros m' c Hne. replace ((m0 =? m') && (ch0 =? c)) with false; [reflexivity|].
+      symmetry. apply not_true_is_false. intros Ht. apply andb_true_iff in Ht. apply andb_true_iff in E.
+      destruct Ht as [T1 T2], E as [E1 E2]. assert (m' = m) by lia. assert (c = ch) by lia. subst m' c.
+      rewrite !N.eqb_refl in Hne. discriminate.
+    + intros Hi. inversion Hi as [|? ? H1 H2]; subst. split; assumption.
+  - destruct (mail_take m ch r) as [[s1 r1]|] eqn:Er; [|discriminate]. injection H as <- <-.
+    destruct (IH s1 r1 eq_refl) as (I1 & I2 & I3). cbn [chan]. rewrite E. split; [exact I1|]. split.
+    + intros m' c Hne. destruct ((m0 =? m') && (ch0 =? c)); [rewrite (I2 m' c Hne); reflexivity|exact (I2 m' c Hne)].
+    + intros Hi. inversion Hi as [|? ? H1 H2]; subst. destruct (I3 H2) as [J1 J2]. split; [exact J1|constructor; assumption].
+Qed.
+
+Lemma mail_take_none m ch mail : mail_take m ch mail = None <-> chan m ch mail = [].
+Proof.
+  induction mail as [|[[[m0 ch0] k0] s0] r IH]; cbn [mail_take chan]; [split; reflexivity|].
+  destruct ((m0 =? m) && (ch0 =? ch)); [split; discriminate|].
+  destruct (mail_take m ch r) as [[s1 r1]|]; [split; [discriminate|]|split; [intros _; apply IH; reflexivity|reflexivity]].
+  intros H. apply IH in H. discriminate.
+Qed.
+
+Lemma skipn_add {A} (l : list A) : forall a b, skipn b (skipn a l) = skipn (a + b) l.
+Proof.
+  induction l as [|x r IH]; intros a b; [destruct a, b; reflexivity|].
+  destruct a as [|a]; [reflexivity|]. cbn [skipn Nat.add]. apply IH.
+Qed.
+
+(* what a poll of task k (of module m, at instant now) does to the channels, to the arrivals the
+   task still expects, and to the list of messages it is still to send:
+   a receiver takes messages off the front of its channels; any other task appends tokens *)
+Definition tok_ok (now m : N) (k : nat) (e : N * N * nat * sleep) : Prop :=
+  exists ch id, e = (m, ch, k, token now 0 id).
+
+Definition mail_ok (now m : N) (k : nat) (rcv : bool) (mail ml : mailbox) (arr arr' : arrs) (S S' : list (N * N)) : Prop :=
+  if rcv then
+    S = S' /\
+    (exists cons : N -> nat, forall c, chan m c ml = skipn (cons c) (chan m c mail) /\ arr' c = skipn (cons c) (arr c) /\
+                                       (cons c <= length (chan m c mail))%nat) /\
+    (forall m' c, m' <> m -> chan m' c ml = chan m' c mail) /\ (inert mail -> inert ml)
+  else
+    exists toks, ml = mail ++ toks /\ Forall (tok_ok now m k) toks /\ (forall c, arr' c = arr c) /\
+                 S = map (fun e => (chn e, now)) toks ++ S'.
+
+Lemma mail_ok_refl now m k rcv mail arr S : mail_ok now m k rcv mail mail arr arr S S.
+Proof.
+  unfold mail_ok. destruct rcv.
+  - split; [reflexivity|]. split; [exists (fun _ => 0%nat); intros c; repeat split; lia|]. split; [reflexivity|exact (fun H => H)].
+  - exists []. rewrite app_nil_r. repeat split; constructor.
+Qed.
+
+Lemma mail_ok_trans now m k rcv mail mail1 ml arr arr1 arr' S1 S2 S' :
+  mail_ok now m k rcv mail mail1 arr arr1 S1 [] -> mail_ok now m k rcv mail1 ml arr1 arr' S2 S' ->
+  mail_ok now m k rcv mail ml arr arr' (S1 ++ S2) S'.
+Proof.
+  unfold mail_ok. destruct rcv.
+  - intros (-> & (c1 & H1) & O1 & I1) (-> & (c2 & H2) & O2 & I2). split; [reflexivity|]. split; [|split].
+    + exists (fun c => (c1 c + c2 c)%nat). intros c. destruct (H1 c) as (A1 & B1 & C1). destruct (H2 c) as (A2 & B2 & C2).
+      rewrite A2, B2, A1, B1, !skipn_add. repeat split. rewrite A1, skipn_length in C2. lia.
+    + intros m' c Hne. rewrite (O2 m' c Hne). apply O1; exact Hne.
+    + intros H. exact (I2 (I1 H)).
+  - intros (t1 & -> & F1 & A1 & ->) (t2 & -> & F2 & A2 & ->). exists (t1 ++ t2). rewrite app_assoc, map_app, app_nil_r, app_assoc.
+    repeat split; try reflexivity; [apply Forall_app; split; assumption|]. intros c. rewrite A2. apply A1.
+Qed.
+
+(* the arrivals a receiver expects: first the messages that are in its channels (sent no later
+   than now), then those still to be sent (no earlier than now) *)
+Definition LA (now m : N) (mail : mailbox) (arr : arrs) : Prop :=
+  forall c, exists F, arr c = map deadline (chan m c mail) ++ F /\
+                      Forall (fun a => a <= now) (map deadline (chan m c mail)) /\ Forall (fun a => now <= a) F.
+
+(* a task that is not a receiver never looks at the arrivals; a receiver never sends *)
+Lemma step_time_noarr now iv arr st : frag_step2 false st -> step_time now iv arr st = step_time now iv noarr st.
+Proof. destruct st; cbn [frag_step2 step_time]; try reflexivity. intros [H _]; discriminate. Qed.
+
+Lemma exp_sends_rcv steps : Forall (frag_step2 true) steps -> forall now iv, exp_sends now iv steps = [].
+Proof.
+  induction 1 as [|st r Hst _ IH]; intros now iv; cbn [exp_sends]; [reflexivity|]. rewrite IH.
+  destruct st; try reflexivity. destruct Hst as [H _]; discriminate.
+Qed.
+
+(* what one poll emits against the log [E] still demanded (and the messages [S] still to be
+   sent), where it leaves the task, and what it does to the driver: contract-respecting
+   operations whose net effect on the entries is the registration of the Sleeps the task
+   blocks on *)
+Definition poll_body (now nid n m : N) (k : nat) (rcv : bool) (old : N -> Prop) (mail ml : mailbox) (arr arr' : arrs)
+                     (E : list N) (S : list (N * N)) (o : list N) (b : option (aw * option interval * list step)) : Prop :=
+  match b with
+  | None => E = o /\ mail_ok now m k rcv mail ml arr arr' S []
+  | Some (a, iv', l) =>
+    exists st rest, l = st :: rest /\ Forall (frag_step2 rcv) rest /\
+      E = o ++ aw_rec a iv' arr' ++ exp_run (aw_end a iv' arr') (iv_abs (iv_after a iv')) (aw_arr a arr') rest /\
+      blocked_ok now nid n old a iv' /\
+      mail_ok now m k rcv mail ml arr arr' S (exp_sends (aw_end a iv' arr') (iv_abs (iv_after a iv')) rest) /\
+      aw_ok a arr' /\ recv_ok (aw_end a iv' arr') (iv_abs (iv_after a iv')) (aw_arr a arr') rest /\
+      (forall ch, waits_on (Some a) = Some ch -> rcv = true /\ chan m ch ml = [])
+  end.
+
+Definition poll_ok (now nid m : N) (k : nat) (rcv : bool) (old : N -> Prop) (dr : driver) (mail : mailbox) (arr : arrs)
+                   (E : list N) (S : list (N * N))
+                   (res : list N * option (aw * option interval * list step) * N * driver * mailbox) : Prop :=
+  let '(o, b, n, d', ml) := res in
   nid <= n /\ acts now dr d' /\
   (forall x, ents_at x (pending d') =
              ents_at x (pending dr) ++ match b with Some (a, iv', _) => new_at a iv' x | None => [] end) /\
-  match b with
-  | None => E = o
-  | Some (a, iv', l) =>
-    exists st rest, l = st :: rest /\ Forall frag_step rest /\
-      E = o ++ aw_rec a iv' ++ exp_run (aw_end a iv') (iv_abs (iv_after a iv')) rest /\ blocked_ok now nid n old a iv'
-  end.
+  exists arr', poll_body now nid n m k rcv old mail ml arr arr' E S o b.
 
-Lemma poll_ok_pass now nid nid' (old old' : N -> Prop) dr dr' E pre res :
+Lemma poll_ok_pass now nid nid' m k rcv (old old' : N -> Prop) dr dr' mail mail1 arr arr1 E pre S1 S2 res :
   nid <= nid' -> (forall id, old' id -> idsrc nid nid' old id) -> acts now dr dr' ->
   (forall x, ents_at x (pending dr') = ents_at x (pending dr)) ->
-  poll_ok now nid' old' dr' E res ->
-  poll_ok now nid old dr (pre ++ E) (let '(o, b, n, d') := res in (pre ++ o, b, n, d')).
+  mail_ok now m k rcv mail mail1 arr arr1 S1 [] ->
+  poll_ok now nid' m k rcv old' dr' mail1 arr1 E S2 res ->
+  poll_ok now nid m k rcv old dr mail arr (pre ++ E) (S1 ++ S2) (let '(o, b, n, d', ml) := res in (pre ++ o, b, n, d', ml)).
 Proof.
-  intros Hn Hold Ha He. destruct res as [[[o b] n] d']. unfold poll_ok. intros (I1 & I2 & I3 & I4).
+  intros Hn Hold Ha He Hm1. destruct res as [[[[o b] n] d'] ml]. unfold poll_ok, poll_body. intros (I1 & I2 & I3 & arr' & I4).
   assert (Hsrc : forall id, idsrc nid' n old' id -> idsrc nid n old id).
   { intros id [[H1 H2]|H]; [left; lia|]. destruct (Hold id H) as [[H1 H2]|H']; [left; lia|right; exact H']. }
   split; [lia|]. split; [exact (acts_trans _ _ _ _ Ha I2)|].
-  split; [intros x; rewrite I3, He; reflexivity|].
+  split; [intros x; rewrite I3, He; reflexivity|]. exists arr'.
   destruct b as [[[a iv'] l]|].
-  - destruct I4 as (st' & rest & -> & Hf' & He' & Hk & Hw & Hnd & Hall & Hiv). exists st', rest.
+  - destruct I4 as (st' & rest & -> & Hf' & He' & (Hk & Hw & Hnd & Hall & Hiv) & Hmo & Hao & Hro & Hch). exists st', rest.
     split; [reflexivity|]. split; [exact Hf'|]. split; [rewrite He', app_assoc; reflexivity|].
+    split; [|split; [exact (mail_ok_trans _ _ _ _ _ _ _ _ _ _ _ _ _ Hm1 Hmo)|split; [exact Hao|split; [exact Hro|exact Hch]]]].
     split; [exact Hk|]. split; [exact Hw|]. split; [exact Hnd|]. split.
     + eapply Forall_impl; [|exact Hall]. cbn beta. intros s0 (H1 & H2 & H3). repeat split; try assumption. exact (Hsrc _ H3).
     + intros id Hid. exact (Hsrc _ (Hiv id Hid)).
-  - rewrite I4. reflexivity.
+  - destruct I4 as [-> Hmo]. split; [reflexivity|]. exact (mail_ok_trans _ _ _ _ _ _ _ _ _ _ _ _ _ Hm1 Hmo).
 Qed.
 
 Lemma tick_next_on_time b nx p : tick_next b nx nx p = nx + p.
 Proof. unfold tick_next. replace (nx + GRACE <? nx) with false by lia. reflexivity. Qed.
 
-Lemma frag_run_spec now steps : Forall frag_step steps -> forall nid iv dr,
+Lemma frag_run_spec now m k rcv steps : Forall (frag_step2 rcv) steps -> forall nid iv dr mail arr,
   iv_idle iv -> Mid now dr -> (forall x id, In id (ents_at x (pending dr)) -> id < nid) ->
-  poll_ok now nid (iv_ids iv) dr (exp_run now (iv_abs iv) steps) (frag_run now nid iv steps dr).
+  inert mail -> (rcv = true -> LA now m mail arr) -> recv_ok now (iv_abs iv) arr steps ->
+  poll_ok now nid m k rcv (iv_ids iv) dr mail arr (exp_run now (iv_abs iv) arr steps) (exp_sends now (iv_abs iv) steps)
+          (frag_run now nid m k iv steps dr mail).
 Proof.
-  induction 1 as [|st r Hst Hr IH]; intros nid iv dr Hi Hm Hfr.
-  { cbn [frag_run exp_run poll_ok]. split; [lia|]. split; [apply acts_refl|]. split; [intros x; rewrite app_nil_r; reflexivity|reflexivity]. }
-  assert (Hf : fresh_in nid (pending dr)) by (intros x Hin; specialize (Hfr x nid Hin); lia).
-  destruct (prep_drv_spec now nid st dr Hst Hm Hf) as [Hpa Hpe].
+  induction 1 as [|st r Hst Hr IH]; intros nid iv dr mail arr Hi Hm Hfr Hin Hla Hok.
+  { cbn [frag_run exp_run exp_sends poll_ok poll_body]. split; [lia|]. split; [apply acts_refl|]. split; [intros x; rewrite app_nil_r; reflexivity|].
+    exists arr. split; [reflexivity|apply mail_ok_refl]. }
+  assert (Hf : fresh_in nid (pending dr)) by (intros x Hin'; specialize (Hfr x nid Hin'); lia).
+  destruct (prep_drv_spec now nid rcv st dr Hst Hm Hf) as [Hpa Hpe].
   assert (Hm1 : Mid now (prep_drv now nid st dr)) by exact (acts_mid _ _ _ Hpa Hm).
-  assert (Hsame : forall id, iv_ids iv id -> forall nid', idsrc nid nid' (iv_ids iv) id) by (intros id H nid'; right; exact H).
+  cbn [recv_ok] in Hok. destruct Hok as [Hsok Hokr].
+  (* the messages still to be sent, after this step *)
+  assert (Hsnd : forall t' iv', step_time now (iv_abs iv) arr st = t' -> step_iv now (iv_abs iv) st = iv' ->
+     exp_sends now (iv_abs iv) (st :: r) = (match st with SHandOver ch _ => [(ch, now)] | _ => [] end) ++ exp_sends t' iv' r).
+  { intros t' iv' <- <-. cbn [exp_sends]. destruct rcv.
+    - rewrite !(exp_sends_rcv r Hr). reflexivity.
+    - rewrite (step_time_noarr now (iv_abs iv) arr st Hst). reflexivity. }
   (* a step that blocks on one Sleep *)
   assert (Hblock : forall D, dl_of now st = D -> now < D ->
-    (exp_run now (iv_abs iv) (st :: r) = D :: exp_run D (iv_abs iv) r) ->
-    poll_ok now nid (iv_ids iv) dr (exp_run now (iv_abs iv) (st :: r))
-      ([], Some (AwSleep (reg nid D), iv, st :: r), nid + 1, register nid D (prep_drv now nid st dr))).
-  { intros D HD Hlt Hexp. unfold poll_ok. split; [lia|]. split.
+    step_log now (iv_abs iv) arr st = [D] -> step_time now (iv_abs iv) arr st = D -> step_iv now (iv_abs iv) st = iv_abs iv ->
+    step_arr now arr st = arr -> (match st with SHandOver ch _ => [(ch, now)] | _ => [] end) = [] ->
+    poll_ok now nid m k rcv (iv_ids iv) dr mail arr (exp_run now (iv_abs iv) arr (st :: r)) (exp_sends now (iv_abs iv) (st :: r))
+      ([], Some (AwSleep (reg nid D), iv, st :: r), nid + 1, register nid D (prep_drv now nid st dr), mail)).
+  { intros D HD Hlt Hlog Htime Hiv Harr Hown. unfold poll_ok, poll_body. split; [lia|]. split.
     - eapply acts_trans; [exact Hpa|]. apply (acts_one now _ (Register nid D)). exact Hlt.
     - split.
       + intros x. cbn [register set_pending pending]. rewrite (ents_at_add _ _ _ _ (mid_sorted _ _ Hm1)), !Hpe.
@@ -519,39 +800,60 @@ Proof.
         destruct (x =? D) eqn:E.
         * replace x with D by lia. rewrite N.eqb_refl. reflexivity.
         * replace (D =? x) with false by lia. rewrite app_nil_r. reflexivity.
-      + exists st, r. cbn [aw_rec aw_end aw_wake reg deadline app iv_after]. split; [reflexivity|]. split; [exact Hr|]. split; [exact Hexp|].
-        unfold blocked_ok. cbn [aw_kind aw_wake aw_held held_sleeps reg deadline sid handle map].
-        split; [exact Hi|]. split; [exact Hlt|]. split; [repeat constructor; intros []|]. split.
-        * constructor; [|constructor]. unfold reg. cbn [deadline handle sid]. repeat split; try reflexivity; try lia. left; lia.
-        * intros id Hid. right; exact Hid. }
-  (* a step that completes at once, leaving the interval as it is *)
-  assert (Hpass : forall nid' dr' (pre : list N), nid <= nid' -> acts now dr dr' -> Mid now dr' ->
-     (forall x, ents_at x (pending dr') = ents_at x (pending dr)) ->
-     (exp_run now (iv_abs iv) (st :: r) = pre ++ exp_run now (iv_abs iv) r) ->
-     poll_ok now nid (iv_ids iv) dr (exp_run now (iv_abs iv) (st :: r))
-       (let '(o, b, n, d') := frag_run now nid' iv r dr' in (pre ++ o, b, n, d'))).
-  { intros nid' dr' pre Hn Ha Hm' He Hexp. rewrite Hexp.
-    apply (poll_ok_pass now nid nid' (iv_ids iv) (iv_ids iv) dr dr'); try assumption.
-    - intros id H. right; exact H.
-    - apply IH; [exact Hi|exact Hm'|]. intros x id Hin. rewrite He in Hin. specialize (Hfr x id Hin). lia. }
-  destruct st as [d|t|d v|biased a b|p bh| | |polled d1 d2|d| | | | | |rearm d0 d2 x d3]; try contradiction; cbn [frag_run].
+      + exists arr, st, r. cbn [aw_rec aw_end aw_wake aw_arr reg deadline app iv_after]. split; [reflexivity|]. split; [exact Hr|].
+        split; [cbn [exp_run]; rewrite Hlog, Htime, Hiv, Harr; reflexivity|].
+        split.
+        { unfold blocked_ok. cbn [aw_kind aw_wake aw_held held_sleeps reg deadline sid handle map].
+          split; [exact Hi|]. split; [exact Hlt|]. split; [repeat constructor; intros []|]. split.
+          * constructor; [|constructor]. unfold reg. cbn [deadline handle sid]. repeat split; try reflexivity; try lia. left; lia.
+          * intros id Hid. right; exact Hid. }
+        split; [rewrite (Hsnd D (iv_abs iv) Htime Hiv), Hown; apply mail_ok_refl|].
+        split; [exact I|]. split; [rewrite Htime, Hiv, Harr in Hokr; exact Hokr|]. intros ch H; discriminate. }
+  (* a step that completes at once *)
+  assert (Hpass : forall nid' dr' (pre : list N) iv1 mail1 arr1 S1,
+     nid <= nid' -> (forall id, iv_ids iv1 id -> idsrc nid nid' (iv_ids iv) id) -> iv_idle iv1 ->
+     acts now dr dr' -> Mid now dr' -> (forall x, ents_at x (pending dr') = ents_at x (pending dr)) ->
+     step_log now (iv_abs iv) arr st = pre -> step_time now (iv_abs iv) arr st = now ->
+     step_iv now (iv_abs iv) st = iv_abs iv1 -> step_arr now arr st = arr1 ->
+     (match st with SHandOver ch _ => [(ch, now)] | _ => [] end) = S1 ->
+     mail_ok now m k rcv mail mail1 arr arr1 S1 [] -> inert mail1 -> (rcv = true -> LA now m mail1 arr1) ->
+     poll_ok now nid m k rcv (iv_ids iv) dr mail arr (exp_run now (iv_abs iv) arr (st :: r)) (exp_sends now (iv_abs iv) (st :: r))
+       (let '(o, b, n, d', ml) := frag_run now nid' m k iv1 r dr' mail1 in (pre ++ o, b, n, d', ml))).
+  { intros nid' dr' pre iv1 mail1 arr1 S1 Hn Hivo Hi1 Ha Hm' He Hlog Htime Hiv Harr Hown Hmo Hin1 Hla1.
+    cbn [exp_run]. rewrite Hlog, Htime, Hiv, Harr, (Hsnd now (iv_abs iv1) Htime Hiv), Hown.
+    apply (poll_ok_pass now nid nid' m k rcv (iv_ids iv) (iv_ids iv1) dr dr' mail mail1 arr arr1); try assumption.
+    apply IH; try assumption.
+    - intros x id Hin'. rewrite He in Hin'. specialize (Hfr x id Hin'). lia.
+    - rewrite Htime, Hiv, Harr in Hokr. exact Hokr. }
+  (* ... without touching the channels or the interval *)
+  assert (Hpass0 : forall nid' dr' (pre : list N),
+     nid <= nid' -> acts now dr dr' -> Mid now dr' -> (forall x, ents_at x (pending dr') = ents_at x (pending dr)) ->
+     step_log now (iv_abs iv) arr st = pre -> step_time now (iv_abs iv) arr st = now ->
+     step_iv now (iv_abs iv) st = iv_abs iv -> step_arr now arr st = arr ->
+     (match st with SHandOver ch _ => [(ch, now)] | _ => [] end) = [] ->
+     poll_ok now nid m k rcv (iv_ids iv) dr mail arr (exp_run now (iv_abs iv) arr (st :: r)) (exp_sends now (iv_abs iv) (st :: r))
+       (let '(o, b, n, d', ml) := frag_run now nid' m k iv r dr' mail in (pre ++ o, b, n, d', ml))).
+  { intros nid' dr' pre Hn Ha Hm' He Hlog Htime Hiv Harr Hown.
+    apply (Hpass nid' dr' pre iv mail arr []); try assumption; [intros id H; right; exact H|apply mail_ok_refl]. }
+  destruct st as [d|t|d v|biased a b|p bh| | |polled d1 d2|d| |ch d|ch|d ch|rf ch d|rearm d0 d2 x d3];
+    cbn [frag_step2 frag_step] in Hst; try contradiction; cbn [frag_run].
   - (* sleep *)
     cbn [dl_of]. destruct (now <? now + d) eqn:E.
-    + apply (Hblock (now + d)); [reflexivity|lia|reflexivity].
-    + pose proof (Hpass (nid + 1) (prep_drv now nid (SSleep d) dr) [now] ltac:(lia) Hpa Hm1 Hpe) as H.
-      cbn [prep_drv app] in *. destruct (frag_run now (nid + 1) iv r dr) as [[[o b] n] d'].
-      apply H. cbn [exp_run app]. replace (now + d) with now by lia. reflexivity.
+    + apply (Hblock (now + d)); try reflexivity. lia.
+    + pose proof (Hpass0 (nid + 1) (prep_drv now nid (SSleep d) dr) [now] ltac:(lia) Hpa Hm1 Hpe) as H.
+      cbn [prep_drv app step_log step_time step_iv step_arr] in *. dfr.
+      apply H; try reflexivity; replace (now + d) with now by lia; reflexivity.
   - (* sleep_until *)
     cbn [dl_of]. destruct (now <? t) eqn:E.
-    + apply (Hblock t); [reflexivity|lia|]. cbn [exp_run]. replace (N.max now t) with t by lia. reflexivity.
-    + pose proof (Hpass (nid + 1) (prep_drv now nid (SSleepUntil t) dr) [now] ltac:(lia) Hpa Hm1 Hpe) as H.
-      cbn [prep_drv app] in *. destruct (frag_run now (nid + 1) iv r dr) as [[[o b] n] d'].
-      apply H. cbn [exp_run app]. replace (N.max now t) with now by lia. reflexivity.
+    + apply (Hblock t); try reflexivity; cbn [step_log step_time]; [lia| |]; replace (N.max now t) with t by lia; reflexivity.
+    + pose proof (Hpass0 (nid + 1) (prep_drv now nid (SSleepUntil t) dr) [now] ltac:(lia) Hpa Hm1 Hpe) as H.
+      cbn [prep_drv app step_log step_time step_iv step_arr] in *. dfr.
+      apply H; try reflexivity; replace (N.max now t) with now by lia; reflexivity.
   - (* timeout around a sleep *)
     destruct v as [x|]; [|contradiction]. destruct Hst as [Hd Hx]. rewrite (dl_fin now d Hd) in *.
     destruct ((now <? now + x) && (now <? now + d)) eqn:E.
     + (* both pending: the value Sleep and the delay are registered *)
-      unfold poll_ok. split; [lia|]. split.
+      unfold poll_ok, poll_body. split; [lia|]. split.
       * eapply acts_trans; [apply (acts_one now dr (Register nid (now + x))); cbn [op_wf]; lia|].
         apply (acts_one now _ (Register (nid + 1) (now + d))). cbn [op_wf]. lia.
       * split.
@@ -564,27 +866,28 @@ Proof.
               replace (now + x =? now + d) with false by lia. cbn [map]. reflexivity.
            ++ replace y with (now + x) by lia. rewrite N.eqb_refl. replace (now + d =? now + x) with false by lia. cbn [map reg sid]. reflexivity.
            ++ replace (now + x =? y) with false by lia. replace (now + d =? y) with false by lia. cbn [map]. rewrite app_nil_r. reflexivity.
-        -- exists (STimeout d (ISleep x)), r. split; [reflexivity|]. split; [exact Hr|].
-           cbn [aw_rec aw_end aw_wake reg deadline exp_run app iv_after]. split.
+        -- exists arr, (STimeout d (ISleep x)), r. split; [reflexivity|]. split; [exact Hr|].
+           cbn [aw_rec aw_end aw_wake aw_arr reg deadline exp_run step_log step_time step_iv step_arr app iv_after] in *. split.
            ++ rewrite N.add_min_distr_l. replace (now + x <=? now + d) with (x <=? d) by lia. reflexivity.
-           ++ unfold blocked_ok. cbn [aw_kind aw_wake aw_held held_sleeps reg deadline sid handle map].
-              split; [exact Hi|]. split; [lia|]. split; [repeat constructor; [intros [H|[]]; lia|intros []]|]. split.
-              ** constructor; [|constructor; [|constructor]]; unfold reg; cbn [deadline handle sid]; (split; [lia|split; [reflexivity|left; lia]]).
-              ** intros id Hid. right; exact Hid.
+           ++ split.
+              { unfold blocked_ok. cbn [aw_kind aw_wake aw_held held_sleeps reg deadline sid handle map].
+                split; [exact Hi|]. split; [lia|]. split; [repeat constructor; [intros [H|[]]; lia|intros []]|]. split.
+                ** constructor; [|constructor; [|constructor]]; unfold reg; cbn [deadline handle sid]; (split; [lia|split; [reflexivity|left; lia]]).
+                ** intros id Hid. right; exact Hid. }
+              split; [rewrite (Hsnd _ _ eq_refl eq_refl); cbn [app]; rewrite N.add_min_distr_l; apply mail_ok_refl|].
+              split; [exact I|]. split; [rewrite N.add_min_distr_l; exact Hokr|]. intros ch H; discriminate.
     + (* one of them is due at once *)
-      pose proof (Hpass (nid + 2) (prep_drv now nid (STimeout d (ISleep x)) dr) [now; b2n (negb (now <? now + x))] ltac:(lia) Hpa Hm1 Hpe) as H.
-      cbn [prep_drv app] in *. rewrite (dl_fin now d Hd) in *.
-      destruct (frag_run now (nid + 2) iv r _) as [[[o b] n] d'].
-      apply H. cbn [exp_run app].
+      pose proof (Hpass0 (nid + 2) (prep_drv now nid (STimeout d (ISleep x)) dr) [now; b2n (negb (now <? now + x))] ltac:(lia) Hpa Hm1 Hpe) as H.
+      cbn [prep_drv app step_log step_time step_iv step_arr] in *. rewrite (dl_fin now d Hd) in *. dfr.
       destruct (now <? now + x) eqn:E1; cbn [andb negb] in *.
       * (* the value is pending, so the delay is due: d = 0 *)
-        replace (N.min x d) with 0 by lia. replace (x <=? d) with false by lia. rewrite N.add_0_r. reflexivity.
-      * replace (N.min x d) with 0 by lia. replace (x <=? d) with true by lia. rewrite N.add_0_r. reflexivity.
+        apply H; try reflexivity; replace (N.min x d) with 0 by lia; [replace (x <=? d) with false by lia|]; rewrite N.add_0_r; reflexivity.
+      * apply H; try reflexivity; replace (N.min x d) with 0 by lia; [replace (x <=? d) with true by lia|]; rewrite N.add_0_r; reflexivity.
   - (* select over two sleeps *)
     destruct Hst as [Ha Hb]. rewrite (dl_fin now a Ha), (dl_fin now b Hb).
     destruct ((now <? now + a) && (now <? now + b)) eqn:E.
     + (* both pending: both Sleeps are registered *)
-      unfold poll_ok. split; [lia|]. split.
+      unfold poll_ok, poll_body. split; [lia|]. split.
       * eapply acts_trans; [apply (acts_one now dr (Register nid (now + a))); cbn [op_wf]; lia|].
         apply (acts_one now _ (Register (nid + 1) (now + b))). cbn [op_wf]. lia.
       * split.
@@ -597,79 +900,144 @@ Proof.
               replace (now + a =? now + b) with false by lia. cbn [map]. reflexivity.
            ++ replace y with (now + a) by lia. rewrite N.eqb_refl. replace (now + b =? now + a) with false by lia. cbn [map reg sid]. reflexivity.
            ++ replace (now + a =? y) with false by lia. replace (now + b =? y) with false by lia. cbn [map]. rewrite app_nil_r. reflexivity.
-        -- exists (SSelect biased a b), r. split; [reflexivity|]. split; [exact Hr|].
-           cbn [aw_rec aw_end aw_wake reg deadline exp_run app iv_after]. split.
+        -- exists arr, (SSelect biased a b), r. split; [reflexivity|]. split; [exact Hr|].
+           cbn [aw_rec aw_end aw_wake aw_arr reg deadline exp_run step_log step_time step_iv step_arr app iv_after] in *. split.
            ++ rewrite N.add_min_distr_l. unfold sel_code. replace (now + a <=? now + b) with (a <=? b) by lia.
               replace (now + a =? now + b) with (a =? b) by lia. reflexivity.
-           ++ unfold blocked_ok. cbn [aw_kind aw_wake aw_held held_sleeps reg deadline sid handle map].
-              split; [split; [exact Hi|lia]|]. split; [lia|]. split; [repeat constructor; [intros [H|[]]; lia|intros []]|]. split.
-              ** constructor; [|constructor; [|constructor]]; unfold reg; cbn [deadline handle sid]; (split; [lia|split; [reflexivity|left; lia]]).
-              ** intros id Hid. right; exact Hid.
+           ++ split.
+              { unfold blocked_ok. cbn [aw_kind aw_wake aw_held held_sleeps reg deadline sid handle map].
+                split; [split; [exact Hi|lia]|]. split; [lia|]. split; [repeat constructor; [intros [H|[]]; lia|intros []]|]. split.
+                ** constructor; [|constructor; [|constructor]]; unfold reg; cbn [deadline handle sid]; (split; [lia|split; [reflexivity|left; lia]]).
+                ** intros id Hid. right; exact Hid. }
+              split; [rewrite (Hsnd _ _ eq_refl eq_refl); cbn [app]; rewrite N.add_min_distr_l; apply mail_ok_refl|].
+              split; [exact I|]. split; [rewrite N.add_min_distr_l; exact Hokr|]. intros ch H; discriminate.
     + (* one of them is due at once *)
-      pose proof (Hpass (nid + 2) (prep_drv now nid (SSelect biased a b) dr)
+      pose proof (Hpass0 (nid + 2) (prep_drv now nid (SSelect biased a b) dr)
                     [now; if now <? now + a then 1 else if biased || negb (a =? b) then 0 else 2] ltac:(lia) Hpa Hm1 Hpe) as H.
-      destruct (frag_run now (nid + 2) iv r _) as [[[o b'] n] d']. cbn [app] in H.
-      apply H. cbn [exp_run app]. unfold sel_code.
+      cbn [step_log step_time step_iv step_arr] in H. dfr. cbn [app] in H. unfold sel_code in H.
       destruct (now <? now + a) eqn:E1; cbn [andb] in E.
-      * replace (N.min a b) with 0 by lia. replace (a <=? b) with false by lia. rewrite N.add_0_r. reflexivity.
-      * replace (N.min a b) with 0 by lia. replace (a <=? b) with true by lia. rewrite N.add_0_r. reflexivity.
+      * apply H; try reflexivity; replace (N.min a b) with 0 by lia; [replace (a <=? b) with false by lia|]; rewrite N.add_0_r; reflexivity.
+      * apply H; try reflexivity; replace (N.min a b) with 0 by lia; [replace (a <=? b) with true by lia|]; rewrite N.add_0_r; reflexivity.
   - (* a new interval *)
-    assert (HI : poll_ok now (nid + 1) (iv_ids (Some (interval_new now p bh nid))) dr
-                   (exp_run now (iv_abs (Some (interval_new now p bh nid))) r) (frag_run now (nid + 1) (Some (interval_new now p bh nid)) r dr)).
-    { apply IH; [reflexivity|exact Hm|]. intros x id Hin. specialize (Hfr x id Hin). lia. }
-    assert (Hold : forall id, iv_ids (Some (interval_new now p bh nid)) id -> idsrc nid (nid + 1) (iv_ids iv) id).
-    { intros id (i & E & ->). injection E as <-. left. cbn [interval_new iv_delay sleep_new sid]. lia. }
-    pose proof (poll_ok_pass now nid (nid + 1) (iv_ids iv) _ dr dr _ [] _ ltac:(lia) Hold (acts_refl now dr) (fun x => eq_refl) HI) as H.
-    destruct (frag_run now (nid + 1) (Some (interval_new now p bh nid)) r dr) as [[[o b] n] d']. exact H.
+    pose proof (Hpass (nid + 1) dr [] (Some (interval_new now p bh nid)) mail arr [] ltac:(lia)) as H.
+    dfr. cbn [app] in H. apply H; try reflexivity; try assumption; try apply mail_ok_refl.
+    intros id (i & E & ->). injection E as <-. left. cbn [interval_new iv_delay sleep_new sid]. lia.
   - (* tick *)
     destruct iv as [i|].
     + cbn [iv_idle] in Hi. destruct (now <? deadline (iv_delay i)) eqn:E.
       * (* not yet due: the Sleep of the interval is registered *)
         assert (Hmax : N.max now (deadline (iv_delay i)) = deadline (iv_delay i)) by lia.
-        unfold poll_ok. split; [lia|]. split; [apply (acts_one now dr (Register (sid (iv_delay i)) (deadline (iv_delay i)))); cbn [op_wf]; lia|].
+        unfold poll_ok, poll_body. split; [lia|]. split; [apply (acts_one now dr (Register (sid (iv_delay i)) (deadline (iv_delay i)))); cbn [op_wf]; lia|].
         split.
         -- intros x. cbn [register set_pending pending]. rewrite (ents_at_add _ _ _ _ (mid_sorted _ _ Hm)).
            unfold new_at. cbn [aw_held held_sleeps iv_reg iv_delay filter reg deadline sid map].
            destruct (x =? deadline (iv_delay i)) eqn:E1.
            ++ replace x with (deadline (iv_delay i)) by lia. rewrite N.eqb_refl. reflexivity.
            ++ replace (deadline (iv_delay i) =? x) with false by lia. rewrite app_nil_r. reflexivity.
-        -- exists SIvTick, r. split; [reflexivity|]. split; [exact Hr|].
-           cbn [aw_rec aw_end aw_wake iv_after iv_reg iv_delay iv_period iv_beh reg deadline sid exp_run app iv_abs iv_next]. split.
+        -- exists arr, SIvTick, r. split; [reflexivity|]. split; [exact Hr|].
+           cbn [aw_rec aw_end aw_wake aw_arr iv_after iv_reg iv_delay iv_period iv_beh reg deadline sid exp_run step_log step_time step_iv step_arr app iv_abs iv_next] in *. split.
            ++ rewrite Hmax, tick_next_on_time. reflexivity.
-           ++ unfold blocked_ok. cbn [aw_kind aw_wake aw_held held_sleeps iv_reg iv_delay reg deadline sid handle map].
-              split; [discriminate|]. split; [lia|]. split; [repeat constructor; intros []|]. split.
-              ** constructor; [|constructor]. unfold reg; cbn [deadline handle sid]. split; [lia|]. split; [reflexivity|]. right. exists i. split; reflexivity.
-              ** intros id (i' & E' & ->). injection E' as <-. right. exists i. split; reflexivity.
+           ++ split.
+              { unfold blocked_ok. cbn [aw_kind aw_wake aw_held held_sleeps iv_reg iv_delay reg deadline sid handle map].
+                split; [discriminate|]. split; [lia|]. split; [repeat constructor; intros []|]. split.
+                ** constructor; [|constructor]. unfold reg; cbn [deadline handle sid]. split; [lia|]. split; [reflexivity|]. right. exists i. split; reflexivity.
+                ** intros id (i' & E' & ->). injection E' as <-. right. exists i. split; reflexivity. }
+              split; [rewrite (Hsnd _ _ eq_refl eq_refl); cbn [app step_time step_iv iv_abs]; rewrite Hmax, tick_next_on_time; apply mail_ok_refl|].
+              split; [exact I|]. split; [rewrite Hmax, tick_next_on_time in Hokr; exact Hokr|]. intros ch H; discriminate.
       * (* due (or missed): the tick is taken at once *)
         set (iv1 := Some (iv_next i (tick_next (iv_beh i) (deadline (iv_delay i)) now (iv_period i)))).
-        assert (HI : poll_ok now nid (iv_ids iv1) dr (exp_run now (iv_abs iv1) r) (frag_run now nid iv1 r dr)) by (apply IH; [reflexivity|exact Hm|exact Hfr]).
-        assert (Hold : forall id, iv_ids iv1 id -> idsrc nid nid (iv_ids (Some i)) id).
-        { intros id (i' & E' & ->). unfold iv1 in E'. injection E' as <-. right. exists i. split; reflexivity. }
-        pose proof (poll_ok_pass now nid nid (iv_ids (Some i)) _ dr dr _ [now; deadline (iv_delay i)] _ ltac:(lia) Hold (acts_refl now dr) (fun x => eq_refl) HI) as H.
-        replace (exp_run now (iv_abs (Some i)) (SIvTick :: r)) with ([now; deadline (iv_delay i)] ++ exp_run now (iv_abs iv1) r).
-        -- fold iv1. destruct (frag_run now nid iv1 r dr) as [[[o b] n] d']. exact H.
-        -- cbn [exp_run iv_abs app]. replace (N.max now (deadline (iv_delay i))) with now by lia. reflexivity.
-    + assert (HI : poll_ok now nid (iv_ids None) dr (exp_run now None r) (frag_run now nid None r dr)) by (apply (IH nid None dr I Hm Hfr)).
-      pose proof (poll_ok_pass now nid nid (iv_ids None) _ dr dr _ [now; 0] _ ltac:(lia) (fun id H => or_intror H) (acts_refl now dr) (fun x => eq_refl) HI) as H.
-      destruct (frag_run now nid None r dr) as [[[o b] n] d']. exact H.
+        pose proof (Hpass nid dr [now; deadline (iv_delay i)] iv1 mail arr [] ltac:(lia)) as H.
+        fold iv1. dfr. cbn [app] in H. apply H; try reflexivity; try assumption; try apply mail_ok_refl.
+        -- intros id (i' & E' & ->). unfold iv1 in E'. injection E' as <-. right. exists i. split; reflexivity.
+        -- cbn [step_log iv_abs]. replace (N.max now (deadline (iv_delay i))) with now by lia. reflexivity.
+        -- cbn [step_time iv_abs]. lia.
+        -- cbn [step_iv iv_abs iv1 iv_next iv_delay iv_period iv_beh deadline]. replace (N.max now (deadline (iv_delay i))) with now by lia. reflexivity.
+    + pose proof (Hpass nid dr [now; 0] None mail arr [] ltac:(lia)) as H.
+      dfr. cbn [app] in H. apply H; try reflexivity; try assumption; try apply mail_ok_refl. intros id H0; right; exact H0.
   - (* the interval is dropped *)
-    assert (HI : poll_ok now nid (iv_ids None) dr (exp_run now None r) (frag_run now nid None r dr)) by (apply (IH nid None dr I Hm Hfr)).
-    assert (Hold : forall id, iv_ids None id -> idsrc nid nid (iv_ids iv) id) by (intros id (i & E & _); discriminate).
-    pose proof (poll_ok_pass now nid nid (iv_ids iv) _ dr dr _ [] _ ltac:(lia) Hold (acts_refl now dr) (fun x => eq_refl) HI) as H.
-    destruct (frag_run now nid None r dr) as [[[o b] n] d']. exact H.
+    pose proof (Hpass nid dr [] None mail arr [] ltac:(lia)) as H.
+    dfr. cbn [app] in H. apply H; try reflexivity; try assumption; try apply mail_ok_refl; try exact I. intros id (i & E & _); discriminate.
   - (* reset *)
     destruct Hst as [Hd1 Hd2]. cbn [dl_of]. rewrite (dl_fin now d2 Hd2) in *. destruct (now <? now + d2) eqn:E.
-    + apply (Hblock (now + d2)); [cbn [dl_of]; apply dl_fin; exact Hd2|lia|reflexivity].
-    + pose proof (Hpass (nid + 1) (prep_drv now nid (SReset polled d1 d2) dr) [now] ltac:(lia) Hpa Hm1 Hpe) as H.
-      destruct (frag_run now (nid + 1) iv r (prep_drv now nid (SReset polled d1 d2) dr)) as [[[o b] n] d']. cbn [app] in H.
-      apply H. cbn [exp_run app]. replace (now + d2) with now by lia. reflexivity.
+    + apply (Hblock (now + d2)); try reflexivity; [cbn [dl_of]; apply dl_fin; exact Hd2|lia].
+    + pose proof (Hpass0 (nid + 1) (prep_drv now nid (SReset polled d1 d2) dr) [now] ltac:(lia) Hpa Hm1 Hpe) as H.
+      cbn [step_log step_time step_iv step_arr] in H. dfr. cbn [app] in H.
+      apply H; try reflexivity; replace (now + d2) with now by lia; reflexivity.
   - (* drop *)
-    pose proof (Hpass (nid + 1) (prep_drv now nid (SDropSleep d) dr) [now] ltac:(lia) Hpa Hm1 Hpe) as H.
-    destruct (frag_run now (nid + 1) iv r (prep_drv now nid (SDropSleep d) dr)) as [[[o b] n] d']. cbn [app] in H.
-    apply H. reflexivity.
+    pose proof (Hpass0 (nid + 1) (prep_drv now nid (SDropSleep d) dr) [now] ltac:(lia) Hpa Hm1 Hpe) as H.
+    dfr. cbn [app] in H. apply H; reflexivity.
   - (* log *)
-    pose proof (Hpass nid dr [now] ltac:(lia) (acts_refl now dr) Hm (fun x => eq_refl)) as H.
-    destruct (frag_run now nid iv r dr) as [[[o b] n] d']. cbn [app] in H. apply H. reflexivity.
+    pose proof (Hpass0 nid dr [now] ltac:(lia) (acts_refl now dr) Hm (fun x => eq_refl)) as H.
+    dfr. cbn [app] in H. apply H; reflexivity.
+  - (* hand-over of a token *)
+    destruct Hst as [-> ->].
+    pose proof (Hpass (nid + 1) dr [now] iv (mail ++ [(m, ch, k, token now 0 nid)]) arr [(ch, now)] ltac:(lia)) as H.
+    dfr. cbn [app] in H. apply H; try reflexivity; try assumption.
+    + intros id H0; right; exact H0.
+    + exists [(m, ch, k, token now 0 nid)]. split; [reflexivity|]. split; [constructor; [exists ch, nid; reflexivity|constructor]|].
+      split; [reflexivity|reflexivity].
+    + apply Forall_app. split; [exact Hin|constructor; [reflexivity|constructor]].
+    + intros H0; discriminate.
+  - (* timeout around a receive *)
+    destruct Hst as [-> Hd]. rewrite (dl_fin now d Hd). specialize (Hla eq_refl).
+    destruct Hsok as [Hfin Htie]. destruct (Hla ch) as (F & EF & Hpast & Hfut).
+    destruct (mail_take m ch mail) as [[s mail']|] eqn:Em.
+    + (* a message is waiting *)
+      destruct (mail_take_some _ _ _ _ _ Em) as (Ec & Eo & Ei). destruct (Ei Hin) as [Hs Hin']. clear Ei.
+      rewrite Ec in EF, Hpast. cbn [map app] in EF, Hpast. inversion Hpast as [|? ? Hsle Hpast']; subst.
+      rewrite EF in Htie.
+      assert (Hhit : recv_hit now d (arr ch) = Some (deadline s)) by (rewrite EF; cbn [recv_hit]; replace (deadline s <? now + d) with true by lia; reflexivity).
+      unfold sleep_drop. rewrite Hs.
+      pose proof (Hpass (nid + 1) dr [now; 1] iv mail' (arr_pop arr ch) [] ltac:(lia)) as H.
+      dfr. cbn [app] in H. apply H; try reflexivity; try assumption.
+      * intros id H0; right; exact H0.
+      * cbn [step_log]. rewrite Hhit. replace (N.max now (deadline s)) with now by lia. reflexivity.
+      * cbn [step_time]. rewrite Hhit. lia.
+      * cbn [step_arr]. rewrite Hhit. reflexivity.
+      * (* the message is taken off its channel *)
+        unfold mail_ok. split; [reflexivity|]. split; [|split; [|intros _; exact Hin']].
+        -- exists (fun c => if c =? ch then 1%nat else 0%nat). intros c. unfold arr_pop. destruct (c =? ch) eqn:E.
+           ++ replace c with ch by lia. rewrite Ec. cbn [skipn length]. split; [reflexivity|]. split; [destruct (arr ch); reflexivity|lia].
+           ++ rewrite (Eo m c) by (rewrite N.eqb_refl, E; reflexivity). cbn [skipn]. repeat split. lia.
+        -- intros m' c Hne. apply Eo. replace (m' =? m) with false by lia. reflexivity.
+      * intros _ c. unfold arr_pop. destruct (c =? ch) eqn:E.
+        -- replace c with ch by lia. exists F. rewrite EF. cbn [tl]. repeat split; assumption.
+        -- rewrite (Eo m c) by (rewrite N.eqb_refl, E; reflexivity). apply Hla.
+    + (* the channel is empty *)
+      apply mail_take_none in Em. rewrite Em in EF. cbn [map app] in EF.
+      destruct (now <? now + d) eqn:Ed.
+      * (* blocked: the delay is registered *)
+        assert (Hmx : forall a0, In a0 F -> N.max now a0 = a0) by (intros a0 H0; rewrite Forall_forall in Hfut; specialize (Hfut a0 H0); lia).
+        assert (Hsame : recv_hit now d (arr ch) = aw_hit (now + d) (arr ch)) by reflexivity.
+        assert (Hmax : match recv_hit now d (arr ch) with Some a0 => N.max now a0 = a0 | None => True end).
+        { rewrite EF. destruct F as [|a0 F']; [exact I|]. cbn [recv_hit]. destruct (a0 <? now + d); [apply Hmx; left; reflexivity|exact I]. }
+        unfold poll_ok, poll_body. split; [lia|]. split; [apply (acts_one now dr (Register nid (now + d))); cbn [op_wf]; lia|]. split.
+        -- intros x. cbn [register set_pending pending]. rewrite (ents_at_add _ _ _ _ (mid_sorted _ _ Hm)).
+           unfold new_at. cbn [aw_held held_sleeps filter reg deadline sid map].
+           destruct (x =? now + d) eqn:E1.
+           ++ replace x with (now + d) by lia. rewrite N.eqb_refl. reflexivity.
+           ++ replace (now + d =? x) with false by lia. rewrite app_nil_r. reflexivity.
+        -- exists arr, (STimeoutRecv d ch), r. split; [reflexivity|]. split; [exact Hr|].
+           cbn [aw_rec aw_end aw_wake aw_arr aw_ok reg deadline exp_run step_log step_time step_iv step_arr app iv_after] in *.
+           rewrite <- Hsame. split.
+           ++ destruct (recv_hit now d (arr ch)) as [a0|]; [rewrite Hmax|]; reflexivity.
+           ++ split.
+              { unfold blocked_ok. cbn [aw_kind aw_wake aw_held held_sleeps reg deadline sid handle map].
+                split; [exact Hi|]. split; [lia|]. split; [repeat constructor; intros []|]. split.
+                ** constructor; [|constructor]. unfold reg; cbn [deadline handle sid]. split; [lia|]. split; [reflexivity|left; lia].
+                ** intros id Hid. right; exact Hid. }
+              split; [rewrite !(exp_sends_rcv _ (Forall_cons _ (conj eq_refl Hd : frag_step2 true (STimeoutRecv d ch)) Hr)), (exp_sends_rcv r Hr); apply mail_ok_refl|].
+              split; [split; [exact Hfin|exact Htie]|].
+              split; [destruct (recv_hit now d (arr ch)) as [a0|]; [rewrite Hmax in Hokr|]; exact Hokr|].
+              intros c H0. injection H0 as <-. split; [reflexivity|exact Em].
+      * (* d = 0: elapsed at once *)
+        assert (Hhit : recv_hit now d (arr ch) = None).
+        { rewrite EF. destruct F as [|a0 F']; [reflexivity|]. cbn [recv_hit]. inversion Hfut; subst. replace (a0 <? now + d) with false by lia. reflexivity. }
+        pose proof (Hpass0 (nid + 1) dr [now; 0] ltac:(lia) (acts_refl now dr) Hm (fun x => eq_refl)) as H.
+        dfr. cbn [app] in H. apply H; try reflexivity.
+        -- cbn [step_log]. rewrite Hhit. replace (now + d) with now by lia. reflexivity.
+        -- cbn [step_time]. rewrite Hhit. lia.
+        -- cbn [step_arr]. rewrite Hhit. reflexivity.
   - (* keep-alive select *)
     destruct Hst as (Hd2 & Hx & Hd3). rewrite (dl_fin now d2 Hd2), (dl_fin now d3 Hd3).
     set (drp := prep_drv now nid (SKeep rearm d0 d2 x d3) dr) in *.
@@ -677,7 +1045,7 @@ Proof.
     destruct (now <? now + d2) eqn:E2.
     + destruct (now <? now + x) eqn:Ex.
       * (* both pending: the kept timer and sleep(x) are registered *)
-        unfold poll_ok. split; [lia|]. split.
+        unfold poll_ok, poll_body. split; [lia|]. split.
         -- eapply acts_trans; [exact Hpa|].
            eapply acts_trans; [apply (acts_one now drp (Register nid (now + d2))); cbn [op_wf]; lia|].
            apply (acts_one now _ (Register (nid + 1) (now + x))). cbn [op_wf]. lia.
@@ -691,22 +1059,24 @@ Proof.
                  replace (now + d2 =? now + x) with false by lia. cbn [map]. reflexivity.
               ** replace y with (now + d2) by lia. rewrite N.eqb_refl. replace (now + x =? now + d2) with false by lia. cbn [map reg sid]. reflexivity.
               ** replace (now + d2 =? y) with false by lia. replace (now + x =? y) with false by lia. cbn [map]. rewrite app_nil_r. reflexivity.
-           ++ exists (SKeep rearm d0 d2 x d3), r. split; [reflexivity|]. split; [exact Hr|].
-              cbn [aw_rec aw_end aw_wake reg deadline exp_run app iv_after]. split.
-              ** replace (now + d2 <=? now + x) with (d2 <=? x) by lia. destruct (d2 <=? x); reflexivity.
-              ** unfold blocked_ok. cbn [aw_kind aw_wake aw_held held_sleeps reg deadline sid handle map].
-                 split; [split; [exact Hi|exact Hd3]|]. split; [lia|]. split; [repeat constructor; [intros [H|[]]; lia|intros []]|]. split.
-                 --- constructor; [|constructor; [|constructor]]; unfold reg; cbn [deadline handle sid]; (split; [lia|split; [reflexivity|left; lia]]).
-                 --- intros id Hid. right; exact Hid.
+           ++ exists arr, (SKeep rearm d0 d2 x d3), r. split; [reflexivity|]. split; [exact Hr|].
+              cbn [aw_rec aw_end aw_wake aw_arr reg deadline exp_run step_log step_time step_iv step_arr app iv_after] in *.
+              replace (now + d2 <=? now + x) with (d2 <=? x) by lia. split.
+              ** destruct (d2 <=? x); reflexivity.
+              ** split.
+                 { unfold blocked_ok. cbn [aw_kind aw_wake aw_held held_sleeps reg deadline sid handle map].
+                   split; [split; [exact Hi|exact Hd3]|]. split; [lia|]. split; [repeat constructor; [intros [H|[]]; lia|intros []]|]. split.
+                   --- constructor; [|constructor; [|constructor]]; unfold reg; cbn [deadline handle sid]; (split; [lia|split; [reflexivity|left; lia]]).
+                   --- intros id Hid. right; exact Hid. }
+                 split; [rewrite (Hsnd _ _ eq_refl eq_refl); cbn [app step_time step_iv]; apply mail_ok_refl|].
+                 split; [exact I|]. split; [exact Hokr|]. intros ch H; discriminate.
       * (* sleep(x) is due at once, the kept timer is not *)
         assert (Hx0 : x = 0) by lia. subst x.
-        assert (Hexp : forall e, e = now + 0 + (if rearm then d3 else 0) ->
-                  exp_run now (iv_abs iv) (SKeep rearm d0 d2 0 d3 :: r) = [now; 1; e] ++ exp_run e (iv_abs iv) r).
-        { intros e ->. cbn [exp_run app]. replace (d2 <=? 0) with false by lia. rewrite N.add_0_r. reflexivity. }
+        assert (Hd20 : (d2 <=? 0) = false) by lia.
         destruct rearm; cbn [andb].
         -- destruct (now <? now + d3) eqn:E3.
            ++ (* re-armed for a later instant: blocked on the kept timer alone *)
-              unfold poll_ok. split; [lia|]. split.
+              unfold poll_ok, poll_body. split; [lia|]. split.
               ** eapply acts_trans; [exact Hpa|]. apply (acts_one now drp (Register nid (now + d3))). cbn [op_wf]. lia.
               ** split.
                  --- intros y. cbn [register set_pending pending]. rewrite (ents_at_add _ _ _ _ Hsp), !Hpe.
@@ -714,23 +1084,22 @@ Proof.
                      destruct (y =? now + d3) eqn:E1.
                      +++ replace y with (now + d3) by lia. rewrite N.eqb_refl. reflexivity.
                      +++ replace (now + d3 =? y) with false by lia. rewrite app_nil_r. reflexivity.
-                 --- exists (SKeep true d0 d2 0 d3), r. split; [reflexivity|]. split; [exact Hr|].
-                     cbn [aw_rec aw_end aw_wake reg deadline app iv_after]. split.
-                     +++ rewrite (Hexp (now + d3)) by lia. reflexivity.
-                     +++ unfold blocked_ok. cbn [aw_kind aw_wake aw_held held_sleeps reg deadline sid handle map].
-                         split; [exact Hi|]. split; [lia|]. split; [repeat constructor; intros []|]. split.
-                         *** constructor; [|constructor]. unfold reg; cbn [deadline handle sid]. split; [lia|]. split; [reflexivity|left; lia].
-                         *** intros id Hid. right; exact Hid.
-           ++ pose proof (Hpass (nid + 2) drp [now; 1; now] ltac:(lia) Hpa Hm1 Hpe) as H.
-              destruct (frag_run now (nid + 2) iv r drp) as [[[o b] n] d']. cbn [app] in H. apply H.
-              rewrite (Hexp now) by lia. reflexivity.
-        -- pose proof (Hpass (nid + 2) drp [now; 1; now] ltac:(lia) Hpa Hm1 Hpe) as H.
-           destruct (frag_run now (nid + 2) iv r drp) as [[[o b] n] d']. cbn [app] in H. apply H.
-           rewrite (Hexp now) by lia. reflexivity.
+                 --- exists arr, (SKeep true d0 d2 0 d3), r. split; [reflexivity|]. split; [exact Hr|].
+                     cbn [aw_rec aw_end aw_wake aw_arr reg deadline exp_run step_log step_time step_iv step_arr app iv_after] in *.
+                     rewrite Hd20 in *. rewrite N.add_0_r in *. split; [reflexivity|]. split.
+                     { unfold blocked_ok. cbn [aw_kind aw_wake aw_held held_sleeps reg deadline sid handle map].
+                       split; [exact Hi|]. split; [lia|]. split; [repeat constructor; intros []|]. split.
+                       *** constructor; [|constructor]. unfold reg; cbn [deadline handle sid]. split; [lia|]. split; [reflexivity|left; lia].
+                       *** intros id Hid. right; exact Hid. }
+                     split; [rewrite (Hsnd _ _ eq_refl eq_refl); cbn [app step_time step_iv]; rewrite ?Hd20, ?N.add_0_r; apply mail_ok_refl|].
+                     split; [exact I|]. split; [exact Hokr|]. intros ch H; discriminate.
+           ++ pose proof (Hpass0 (nid + 2) drp [now; 1; now] ltac:(lia) Hpa Hm1 Hpe) as H.
+              dfr. cbn [app] in H. apply H; try reflexivity; cbn [step_log step_time]; rewrite Hd20; [replace (now + 0 + d3) with now by lia; rewrite N.add_0_r; reflexivity|lia].
+        -- pose proof (Hpass0 (nid + 2) drp [now; 1; now] ltac:(lia) Hpa Hm1 Hpe) as H.
+           dfr. cbn [app] in H. apply H; try reflexivity; cbn [step_log step_time]; rewrite Hd20; [rewrite !N.add_0_r; reflexivity|lia].
     + (* the kept timer is due at once *)
-      pose proof (Hpass (nid + 2) drp [now; 0] ltac:(lia) Hpa Hm1 Hpe) as H.
-      destruct (frag_run now (nid + 2) iv r drp) as [[[o b] n] d']. cbn [app] in H. apply H.
-      cbn [exp_run app]. replace (d2 <=? x) with true by lia. replace (now + d2) with now by lia. reflexivity.
+      pose proof (Hpass0 (nid + 2) drp [now; 0] ltac:(lia) Hpa Hm1 Hpe) as H.
+      dfr. cbn [app] in H. apply H; try reflexivity; cbn [step_log step_time]; replace (d2 <=? x) with true by lia; [replace (now + d2) with now by lia; reflexivity|lia].
 Qed.
 
 (* ---- closed forms for the interval ---- *)
@@ -774,20 +1143,20 @@ Fixpoint burst_end (now start p : N) (k : nat) (busy : list N) : N :=
   | d :: r => burst_end (N.max now (start + N.of_nat k * p) + d) start p (S k) r
   end.
 
-Lemma exp_run_burst busy : forall now start p k r,
-  exp_run now (Some (start + N.of_nat k * p, p, Burst)) (ticks busy ++ r) =
+Lemma exp_run_burst busy : forall now start p k arr r,
+  exp_run now (Some (start + N.of_nat k * p, p, Burst)) arr (ticks busy ++ r) =
   burst_log now start p k busy ++
-  exp_run (burst_end now start p k busy) (Some (start + N.of_nat (k + length busy) * p, p, Burst)) r.
+  exp_run (burst_end now start p k busy) (Some (start + N.of_nat (k + length busy) * p, p, Burst)) arr r.
 Proof.
-  induction busy as [|d bs IH]; intros now start p k r.
+  induction busy as [|d bs IH]; intros now start p k arr r.
   - cbn [ticks app burst_log burst_end length]. rewrite Nat.add_0_r. reflexivity.
-  - cbn [ticks app burst_log burst_end length exp_run]. rewrite tick_next_burst.
+  - cbn [ticks app burst_log burst_end length exp_run step_log step_time step_iv step_arr]. rewrite tick_next_burst.
     replace (start + N.of_nat k * p + p) with (start + N.of_nat (S k) * p) by lia.
     replace (k + S (length bs))%nat with (S k + length bs)%nat by lia.
     destruct (d =? 0) eqn:E.
     + replace (N.max now (start + N.of_nat k * p) + d) with (N.max now (start + N.of_nat k * p)) by lia.
       rewrite IH. reflexivity.
-    + cbn [app exp_run]. rewrite IH. reflexivity.
+    + cbn [app exp_run step_log step_time step_iv step_arr]. rewrite IH. reflexivity.
 Qed.
 
 (* the branch a select over sleep(a), sleep(b) reports, spelled out *)
@@ -799,4 +1168,43 @@ Proof.
   - destruct (b <? a) eqn:E2.
     + replace (a <=? b) with false by lia. reflexivity.
     + replace (a <=? b) with true by lia. replace (a =? b) with true by lia. destruct biased; reflexivity.
+Qed.
+
+(* ---- tasks that do not receive ---- *)
+(* their demanded log does not depend on the arrivals, and they have no ties *)
+Lemma exp_run_noarr steps : Forall (frag_step2 false) steps -> forall now iv arr arr',
+  exp_run now iv arr steps = exp_run now iv arr' steps.
+Proof.
+  induction 1 as [|st r Hst _ IH]; intros now iv arr arr'; [reflexivity|]. cbn [exp_run].
+  assert (H : step_log now iv arr st = step_log now iv arr' st /\ step_time now iv arr st = step_time now iv arr' st /\
+              step_arr now arr st = arr /\ step_arr now arr' st = arr').
+  { destruct st; cbn [frag_step2] in Hst; cbn [step_log step_time step_arr]; try (repeat split; reflexivity). destruct Hst as [H _]; discriminate. }
+  destruct H as (-> & -> & -> & ->). rewrite (IH _ _ arr arr'). reflexivity.
+Qed.
+
+Lemma recv_ok_noarr steps : Forall (frag_step2 false) steps -> forall now iv arr, recv_ok now iv arr steps.
+Proof.
+  induction 1 as [|st r Hst _ IH]; intros now iv arr; cbn [recv_ok]; [exact I|]. split; [|apply IH].
+  destruct st; cbn [frag_step2] in Hst; cbn [step_ok]; try exact I. destruct Hst as [H _]; discriminate.
+Qed.
+
+Lemma frag_step2_false_of_old steps : Forall frag_step steps -> Forall (frag_step2 false) steps.
+Proof. intros H. eapply Forall_impl; [|exact H]. intros st. apply frag_step2_old. Qed.
+
+(* the instants of a task's future messages are not before the instant it is at *)
+Lemma step_time_mono now iv arr st : now <= step_time now iv arr st.
+Proof.
+  destruct st; cbn [step_time]; try lia.
+  - destruct v; lia.
+  - destruct iv as [[[nx p] b]|]; lia.
+  - destruct (recv_hit now d (arr ch)); lia.
+  - destruct (d2 <=? x); lia.
+Qed.
+
+Lemma exp_sends_ge steps : forall now iv c t, In (c, t) (exp_sends now iv steps) -> now <= t.
+Proof.
+  induction steps as [|st r IH]; intros now iv c t H; cbn [exp_sends] in H; [contradiction|].
+  apply in_app_or in H. destruct H as [H|H].
+  - destruct st; try contradiction. destruct H as [H|[]]. injection H as _ <-. lia.
+  - specialize (IH _ _ _ _ H). pose proof (step_time_mono now iv noarr st). lia.
 Qed.
